@@ -2,37 +2,60 @@
 
 Decided:
   R20.a  every global name loaded in clastic/flaw.py resolves (symtable) -- also the functions of
-         server.py that build the failsafe (serve_error_app, restart_with_reloader; loads dominated by
-         ``os.name == 'nt'`` are exempt: Windows-only);
-  R20.b  parsing can never prevent the page: the _ParsedTB.from_string / to_dict calls in create_app sit
-         under a catch-all handler that substitutes a constant; get_flaw_info's splitlines()[-1] likewise;
-         both page routes ('/' and the catch-all '/<_ignored*>') use the same endpoint and template; the
-         resource names given to Application are exactly the endpoint's parameters (so the bind-time check
-         of C01 holds for the failsafe itself); the template name rendered is the one registered;
-  R20.c  every reference of _FLAW_TEMPLATE is HTML-escaped under ashes' filter semantics (no |s, no esc
-         pragma), and nothing in clastic switches autoescaping off;
+         server.py that build the failsafe (serve_error_app, restart_with_reloader; loads dominated by a
+         Windows-only test such as ``os.name == 'nt'`` are exempt);
+  R20.b  parsing can never prevent the page: every call of the traceback parser that create_app makes (directly or
+         through a function of the module) sits under a catch-all handler that completes normally with a harmless
+         value, and the value put into the resources is bound on every path; the endpoint's own risky expressions
+         (``tb_str.splitlines()[-1]``) likewise; both page routes ('/' and the catch-all '/<..*>') use the same
+         endpoint and template; the resource names given to Application are exactly the endpoint's parameters (so
+         the bind-time check of C01 holds for the failsafe itself); the template name rendered is the one
+         registered; the static asset application is non-breaking and the catch-all is the last route; nothing
+         removes entries from the caller's monitored-file list;
+  R20.c  every reference of the registered template is HTML-escaped under ashes' filter semantics (no |s, no esc
+         pragma), and nothing in clastic switches autoescaping off; the endpoint supplies what the template reads
+         and the text / file list shown are the ones create_app was given;
   R20.d  the parsed branch is reachable: from_string has a normal return path that does not depend on an
-         unbound name (follows from R20.a) and to_dict exports the keys the template's {#parsed_err} block reads.
-Declined: "answers 200 for every text" over non-text inputs; traceback grammar coverage.
+         unbound name (follows from R20.a), constructs cls(<type>, <message>, ...) from the two sides of the
+         ``partition(':')`` of the exception line, and to_dict exports the keys the template's {#parsed_err} block
+         reads; evaluated on four standard tracebacks (builtin, module-qualified and __main__ exception classes, text
+         and bytes, a SyntaxError report) the parser names exactly the exception type and message (the evaluator
+         understands a side-effect free subset of Python; outside it this part is declined, never guessed).
+  R20.e  the launcher (server.py) builds the failsafe from what it collected: the function calling flaw.create_app
+         passes its own (error text, file list) parameters in that order, and the list restart_with_reloader hands to
+         the error hook is filled *in place* from the child's report -- no nested function or helper rebinds it as a
+         local of its own.
+Declined: "answers 200 for every text" over non-text inputs; traceback grammars beyond the evaluated samples.
+
+The constructs are located by role: the Application(...) call create_app returns, its routes / resources /
+render_factory arguments followed through single-assignment locals, module-level constants and straight-line list
+building; the endpoint is whatever function the page routes name; the template is whatever source is registered.
 """
 import ast
 
 from ..core import AnalysisError, norm, short
 from .. import dust
-from .common import (cfg_of, fkey, conds, has_cond, check_unbound, platform_gated, protected_by, stmts_of,
-                     walk_body, call_tail, call_name, returns_of, kwarg)
+from .. import layers
+from ..astutil import assigned_value, argn, root_name, handler_catches
+from ..cfg import enclosing_tries, expr_may_raise
+from .common import (cfg_of, fkey, conds, check_unbound, stmts_of, stmt_of, walk_body, call_tail, call_name, returns_of)
 
 FLAW = 'clastic.flaw'
+PARSER_CLASS = '_ParsedTB'
+PARSER_METHODS = ('from_string', 'to_dict')
 
 
+# ------------------------------------------------------------------------------------------------ shared with C09 / C18
 def autoescape_writes(repo):
-    """Any store to an ``autoescape_filter`` attribute / keyword anywhere in clastic."""
+    """Any store to an ``autoescape_filter`` attribute / keyword anywhere in clastic (a keyword that spells the
+    default, ``autoescape_filter='h'``, switches nothing off)."""
     out = []
     for m in repo.all_internal_modules():
         for n in ast.walk(m.tree):
             if isinstance(n, ast.Attribute) and n.attr == 'autoescape_filter' and isinstance(n.ctx, ast.Store):
                 out.append((m, n))
-            if isinstance(n, ast.keyword) and n.arg == 'autoescape_filter':
+            if isinstance(n, ast.keyword) and n.arg == 'autoescape_filter' and \
+                    not (isinstance(n.value, ast.Constant) and n.value.value == 'h'):
                 out.append((m, n.value))
             if isinstance(n, ast.Call) and call_tail(n) == 'setattr' and len(n.args) >= 2 and \
                     isinstance(n.args[1], ast.Constant) and n.args[1].value == 'autoescape_filter':
@@ -60,198 +83,2360 @@ def check_template_escaping(rep, rule, repo, mod, name, text, allow=(), node=Non
     return tags
 
 
-def run(rep):
-    repo = rep.repo
-    flaw = repo.mod(FLAW)
-    server = repo.mod('clastic.server')
-    rep.decide('R20.a names resolve; R20.b parser cannot prevent the page, route/template/resource agreement; '
-               'R20.c template auto-escapes every reference; R20.d parsed branch reachable and fed')
-    rep.decline('totality over non-text inputs (bytes/None through ashes); coverage of traceback grammars')
-    rep.assume('ashes 19.2.0 filter semantics as read from the pinned source (apply_filters)')
+# ------------------------------------------------------------------------------------------------ following locals
+def _all_params(fi):
+    a = fi.node.args
+    out = set(fi.params())
+    if a.vararg:
+        out.add(a.vararg.arg)
+    if a.kwarg:
+        out.add(a.kwarg.arg)
+    return out
 
-    # ---- R20.a -----------------------------------------------------------
+
+def _single_value(fi, name):
+    """Value of a local that is bound exactly once, by a plain assignment (never a parameter): else None."""
+    if name in _all_params(fi):
+        return None
+    b = assigned_value(fi.node, name)
+    if len(b) == 1 and b[0][2] is None and isinstance(b[0][0], (ast.Assign, ast.AnnAssign)):
+        return b[0][1]
+    return None
+
+
+def _expression_function(fi, call):
+    """(FuncInfo, return expression) when ``call`` names a function -- nested in ``fi`` or at module level -- whose
+    whole body is ``return <expr>`` (a docstring aside): such a call can be read as the expression itself."""
+    if not (isinstance(call, ast.Call) and isinstance(call.func, ast.Name)):
+        return None
+    name = call.func.id
+    g = fi.mod.functions.get('%s.%s' % (fi.qualname, name))
+    if g is None:
+        if name in _all_params(fi) or assigned_value(fi.node, name):
+            return None
+        try:
+            kind, m, obj = fi.mod.repo.resolve(fi.mod, name)
+        except Exception:
+            return None
+        if kind != 'func' or m is not fi.mod:
+            return None
+        g = obj
+    elif assigned_value(fi.node, name):
+        return None
+    if not isinstance(g.node, ast.FunctionDef) or g.node.decorator_list or g.node is fi.node:
+        return None
+    body = list(g.node.body)
+    if body and isinstance(body[0], ast.Expr) and isinstance(body[0].value, ast.Constant) and isinstance(body[0].value.value, str):
+        body = body[1:]
+    if len(body) != 1 or not isinstance(body[0], ast.Return) or body[0].value is None:
+        return None
+    return g, body[0].value
+
+
+def _inline_expression_call(fi, call):
+    """The return expression of an expression function with the arguments substituted, or None."""
+    import copy
+    found = _expression_function(fi, call)
+    if found is None:
+        return None
+    g, value = found
+    a = g.node.args
+    if a.vararg or a.kwarg or any(isinstance(x, ast.Starred) for x in call.args) or any(k.arg is None for k in call.keywords):
+        return None
+    names = [x.arg for x in a.posonlyargs + a.args]
+    kwonly = [x.arg for x in a.kwonlyargs]
+    if len(call.args) > len(names):
+        return None
+    binding = dict(zip(names, call.args))
+    for k in call.keywords:
+        if k.arg in binding or k.arg not in names + kwonly:
+            return None
+        binding[k.arg] = k.value
+    defaults = dict(zip(names[len(names) - len(a.defaults):], a.defaults))
+    for x, d in zip(kwonly, a.kw_defaults):
+        if d is not None:
+            defaults[x] = d
+    for n in names + kwonly:
+        if n not in binding:
+            if n not in defaults:
+                return None
+            binding[n] = defaults[n]
+    shadow = set()
+    for n in ast.walk(value):
+        if isinstance(n, ast.comprehension):
+            shadow |= set(x.id for x in ast.walk(n.target) if isinstance(x, ast.Name))
+        elif isinstance(n, ast.Lambda):
+            shadow |= set(x.arg for x in n.args.posonlyargs + n.args.args + n.args.kwonlyargs)
+        elif isinstance(n, ast.Call) and isinstance(n.func, ast.Name) and n.func.id == g.node.name:
+            return None    # recursive
+    if shadow & set(binding):
+        return None
+    free = set(n.id for n in ast.walk(value) if isinstance(n, ast.Name)) - set(binding)
+    if '.' not in g.qualname and any(n in _all_params(fi) or assigned_value(fi.node, n) for n in free):
+        return None        # a module-level name of the callee is shadowed by a local of the caller
+
+    class _Sub(ast.NodeTransformer):
+        def visit_Name(self_, node):
+            if node.id in binding and isinstance(node.ctx, ast.Load):
+                return ast.copy_location(copy.deepcopy(binding[node.id]), node)
+            return node
+    return ast.copy_location(_Sub().visit(copy.deepcopy(value)), call)
+
+
+def _const_index(idx):
+    if isinstance(idx, ast.UnaryOp) and isinstance(idx.op, ast.USub) and isinstance(idx.operand, ast.Constant) and \
+            isinstance(idx.operand.value, int) and not isinstance(idx.operand.value, bool):
+        return -idx.operand.value
+    if isinstance(idx, ast.Constant) and isinstance(idx.value, int) and not isinstance(idx.value, bool):
+        return idx.value
+    return None
+
+
+def _deref(fi, expr, limit=8):
+    """Follow ``name`` -> the expression it was (once) assigned (also as one position of an unpacked sequence that can
+    be followed), ``pair[0]`` -> that element of a literal tuple held by a once-assigned local, and a call of an
+    expression function (``def page(p): return (p, endpoint, NAME)``) -> its return expression, repeatedly."""
+    while limit > 0:
+        limit -= 1
+        if isinstance(expr, ast.Name):
+            v = _single_value(fi, expr.id)
+            if v is not None:
+                expr = v
+                continue
+            b = assigned_value(fi.node, expr.id) if expr.id not in _all_params(fi) else []
+            if len(b) == 1 and isinstance(b[0][2], int) and isinstance(b[0][0], ast.Assign) and len(b[0][0].targets) == 1 and \
+                    isinstance(b[0][0].targets[0], (ast.Tuple, ast.List)) and \
+                    not any(isinstance(t, ast.Starred) for t in b[0][0].targets[0].elts):
+                try:
+                    elts = _seq_elements(fi, b[0][1], 'unpacking', 6 - min(limit, 5))
+                except AnalysisError:
+                    break
+                if len(elts) == len(b[0][0].targets[0].elts):
+                    expr = elts[b[0][2]]
+                    continue
+            break
+        if isinstance(expr, ast.Subscript) and isinstance(expr.ctx, ast.Load) and isinstance(expr.value, ast.Name):
+            i = _const_index(expr.slice)
+            if i is None:
+                break
+            seq = _single_value(fi, expr.value.id)
+            # a tuple is immutable; a list could have been changed in between
+            if isinstance(seq, ast.Tuple) and not any(isinstance(e, ast.Starred) for e in seq.elts) and -len(seq.elts) <= i < len(seq.elts):
+                expr = seq.elts[i]
+                continue
+            break
+        if isinstance(expr, ast.Call):
+            v = _inline_expression_call(fi, expr)
+            if v is not None:
+                expr = v
+                continue
+        break
+    return expr
+
+
+def _closed(fi, expr, depth=0):
+    """``expr`` with the once-assigned locals of ``fi`` and its expression-function calls replaced by what they stand
+    for, so that it can be read outside ``fi`` (it then only mentions module-level names, constants -- and parameters
+    of ``fi``, which stay as they are)."""
+    import copy
+    if depth > 6:
+        return expr
+
+    class _Close(ast.NodeTransformer):
+        def visit_Name(self_, node):
+            if isinstance(node.ctx, ast.Load):
+                v = _deref(fi, node)
+                if v is not node:
+                    return _closed(fi, copy.deepcopy(v) if not isinstance(v, ast.Name) else v, depth + 1)
+            return node
+
+        def visit_Call(self_, node):
+            v = _inline_expression_call(fi, node)
+            if v is not None:
+                return _closed(fi, v, depth + 1)
+            return self_.generic_visit(node)
+
+        def visit_Lambda(self_, node):
+            return node
+    return _Close().visit(copy.deepcopy(expr))
+
+
+def _canon_name(fi, expr):
+    """Root local name of ``expr`` with pure aliases (``a = b``) followed."""
+    name = root_name(expr)
+    seen = set()
+    while name is not None and name not in seen:
+        seen.add(name)
+        v = _single_value(fi, name)
+        if isinstance(v, ast.Name):
+            name = v.id
+        else:
+            break
+    return name
+
+
+_UNFOLDED = object()
+
+
+def _fold(repo, fi, expr):
+    """Constant value of an expression (locals bound once and module-level constants followed) or _UNFOLDED."""
+    return repo.try_fold(_deref(fi, expr), fi.mod, _UNFOLDED)
+
+
+def _straight_line(fi, st):
+    """The statement runs exactly once per activation, unconditionally (apart from exceptions): its ancestors up to
+    the function are only try bodies / else clauses and with blocks."""
+    cur = st
+    while True:
+        par = fi.mod.parents.get(cur)
+        if par is None:
+            return False
+        if par is fi.node:
+            return True
+        if isinstance(par, ast.Try):
+            if cur not in par.body and cur not in par.orelse:
+                return False
+        elif not isinstance(par, (ast.With,)):
+            return False
+        cur = par
+
+
+def _seq_elements(fi, expr, what, depth=0):
+    """Element expressions of a list / tuple valued expression that is a literal or is built in straight-line code
+    (literal, concatenation, ``x = [..]`` followed by append / extend / insert / ``+=``)."""
+    if depth > 5:
+        raise AnalysisError('%s: construction too deep to follow' % what)
+    if isinstance(expr, (ast.List, ast.Tuple)):
+        if any(isinstance(e, ast.Starred) for e in expr.elts):
+            raise AnalysisError('%s: starred element in %s' % (what, short(expr)))
+        return list(expr.elts)
+    if isinstance(expr, ast.BinOp) and isinstance(expr.op, ast.Add):
+        return _seq_elements(fi, expr.left, what, depth + 1) + _seq_elements(fi, expr.right, what, depth + 1)
+    if isinstance(expr, ast.Call) and call_name(expr) in ('list', 'tuple') and len(expr.args) == 1 and not expr.keywords:
+        return _seq_elements(fi, expr.args[0], what, depth + 1)
+    if isinstance(expr, ast.Call) and isinstance(expr.func, ast.Name):
+        v = _inline_expression_call(fi, expr)
+        if v is not None:
+            return _seq_elements(fi, v, what, depth + 1)
+        # routes = build_routes(): a function of the module that takes nothing and ends in one ``return <sequence>``
+        try:
+            kind, m, g = fi.mod.repo.resolve(fi.mod, expr.func.id)
+        except Exception:
+            kind, m, g = 'unknown', None, None
+        if kind == 'func' and m is fi.mod and g.node is not fi.node and not expr.args and not expr.keywords and \
+                expr.func.id not in _all_params(fi) and not assigned_value(fi.node, expr.func.id):
+            rets = returns_of(g)
+            if len(rets) == 1 and rets[0].value is not None and _straight_line(g, rets[0]) and not g.params():
+                return [_closed(g, e) for e in _seq_elements(g, rets[0].value, what, depth + 1)]
+    if isinstance(expr, (ast.ListComp, ast.GeneratorExp)) and len(expr.generators) == 1 and not expr.generators[0].ifs and \
+            isinstance(expr.generators[0].target, ast.Name) and not expr.generators[0].is_async:
+        # [(p, endpoint, name) for p in ('/', '/<x*>')]: one element per constant of the iterated literal
+        import copy
+        g = expr.generators[0]
+        consts = fi.mod.repo.try_fold(_deref(fi, g.iter), fi.mod, None)
+        if not isinstance(consts, (list, tuple)) or not all(isinstance(c, (str, int, bytes)) for c in consts):
+            raise AnalysisError('%s: comprehension over %s cannot be expanded' % (what, short(g.iter)))
+        out = []
+        for c in consts:
+            class _Sub(ast.NodeTransformer):
+                def visit_Name(self_, node):
+                    if node.id == g.target.id and isinstance(node.ctx, ast.Load):
+                        return ast.copy_location(ast.Constant(value=c), node)
+                    return node
+            out.append(_Sub().visit(copy.deepcopy(expr.elt)))
+        return out
+    if isinstance(expr, ast.Name):
+        name = expr.id
+        if name in _all_params(fi):
+            raise AnalysisError('%s: %s is a parameter' % (what, name))
+        binds = assigned_value(fi.node, name)
+        plain = [b for b in binds if isinstance(b[0], (ast.Assign, ast.AnnAssign)) and b[2] is None]
+        augs = [b for b in binds if isinstance(b[0], ast.AugAssign)]
+        if len(plain) != 1 or len(plain) + len(augs) != len(binds):
+            raise AnalysisError('%s: local %s is not built by one assignment' % (what, name))
+        elts = None
+        for st in stmts_of(fi.node):
+            if st is plain[0][0]:
+                if not _straight_line(fi, st):
+                    raise AnalysisError('%s: %s is assigned conditionally' % (what, name))
+                elts = _seq_elements(fi, plain[0][1], what, depth + 1)
+                continue
+            touched = None
+            if isinstance(st, ast.AugAssign) and isinstance(st.target, ast.Name) and st.target.id == name:
+                if not isinstance(st.op, ast.Add):
+                    raise AnalysisError('%s: %s' % (what, short(st)))
+                touched = ('extend', [st.value])
+            elif isinstance(st, ast.Expr) and isinstance(st.value, ast.Call) and isinstance(st.value.func, ast.Attribute) \
+                    and isinstance(st.value.func.value, ast.Name) and st.value.func.value.id == name:
+                touched = (st.value.func.attr, st.value.args)
+            elif isinstance(st, (ast.Assign, ast.Delete)):
+                tg = st.targets
+                if any(isinstance(t, ast.Subscript) and root_name(t) == name for t in tg):
+                    raise AnalysisError('%s: element store into %s' % (what, name))
+            if touched is None:
+                continue
+            if elts is None or not _straight_line(fi, st):
+                raise AnalysisError('%s: %s is extended conditionally or before it is assigned (%s)' % (what, name, short(st)))
+            meth, args = touched
+            if meth == 'append' and len(args) == 1:
+                elts = elts + [args[0]]
+            elif meth == 'extend' and len(args) == 1:
+                elts = elts + _seq_elements(fi, args[0], what, depth + 1)
+            elif meth == 'insert' and len(args) == 2 and isinstance(args[0], ast.Constant) and isinstance(args[0].value, int) \
+                    and 0 <= args[0].value <= len(elts):
+                elts = elts[:args[0].value] + [args[1]] + elts[args[0].value:]
+            elif meth in ('count', 'index', 'copy'):
+                pass
+            else:
+                raise AnalysisError('%s: %s.%s(...) cannot be followed' % (what, name, meth))
+        if elts is None:
+            raise AnalysisError('%s: assignment of %s not found' % (what, name))
+        return elts
+    raise AnalysisError('%s: %s is not a literal list' % (what, short(expr)))
+
+
+def _dict_items(fi, expr, what, depth=0):
+    """{key: value expr} of a dict valued expression: a literal, ``dict(k=v)``, ``dict([(k, v), ..])``, ``{**d, k: v}``,
+    or a local built from those plus ``d[k] = v`` / ``d.update(...)`` / ``d.setdefault(k, v)``."""
+    if depth > 4:
+        raise AnalysisError('%s: construction too deep to follow' % what)
+    if isinstance(expr, ast.Name):
+        if expr.id in _all_params(fi):
+            raise AnalysisError('%s: %s is a parameter' % (what, expr.id))
+        ls = layers.layers_of_var(fi.node, expr.id)
+    else:
+        ls = layers.layers_of_expr(expr)
+    items = {}
+    if not ls:
+        raise AnalysisError('%s: construction of %s not found' % (what, short(expr)))
+    for l in ls:
+        if l.kind == 'source':
+            src = l.node
+            if isinstance(src, ast.Name) and not (isinstance(expr, ast.Name) and src.id == expr.id):
+                items.update(_dict_items(fi, src, what, depth + 1))       # {**base, ...} / dict(base, ...)
+                continue
+            if isinstance(src, (ast.List, ast.Tuple)) and all(
+                    isinstance(p_, ast.Tuple) and len(p_.elts) == 2 and isinstance(p_.elts[0], ast.Constant) for p_ in src.elts):
+                for p_ in src.elts:                                         # dict([('k', v), ...])
+                    items[p_.elts[0].value] = p_.elts[1]
+                continue
+            if isinstance(src, (ast.Dict, ast.Call)) and src is not expr:
+                items.update(_dict_items(fi, src, what, depth + 1))
+                continue
+            if isinstance(src, ast.Call) and call_name(src) == 'zip' and len(src.args) == 2 and not src.keywords:
+                pass
+            raise AnalysisError('%s: part %s of the dict is not a literal' % (what, l.text))
+        if l.kind != 'literal' or l.values is None:
+            raise AnalysisError('%s: part %s of the dict is not a literal' % (what, l.text))
+        for k in l.keys:
+            if l.below:
+                items.setdefault(k, l.values.get(k))
+            else:
+                items[k] = l.values.get(k)
+    return items
+
+
+# ------------------------------------------------------------------------------------------------ exception containment
+def _harmless_value(v):
+    if v is None:
+        return True
+    if isinstance(v, ast.Call) and isinstance(v.func, ast.Name) and v.func.id in ('dict', 'list', 'tuple', 'set', 'frozenset', 'str') \
+            and not v.keywords and all(_harmless_value(a) and not isinstance(a, ast.Name) for a in v.args):
+        return True
+    if isinstance(v, (ast.Dict, ast.List, ast.Tuple, ast.Set)):
+        parts = list(v.values) + [k for k in v.keys if k is not None] if isinstance(v, ast.Dict) else list(v.elts)
+        if isinstance(v, ast.Dict) and any(k is None for k in v.keys):
+            return False
+        return all(_harmless_value(p) for p in parts)
+    return not expr_may_raise(v)
+
+
+def _handler_completes(handler, fi=None):
+    """The handler body cannot raise and falls through / returns with a constant-like value: it is made of ``pass``,
+    assignments / returns of values whose evaluation cannot raise.  Returns None or the offending statement."""
+    for s in handler.body:
+        if isinstance(s, ast.Pass):
+            continue
+        if isinstance(s, ast.Expr) and isinstance(s.value, ast.Constant):
+            continue
+        if isinstance(s, ast.Assign) and all(isinstance(t, ast.Name) for t in s.targets) and _harmless_value(s.value):
+            continue
+        if fi is not None and isinstance(s, ast.Assign) and _harmless_value(s.value) and all(
+                isinstance(t, ast.Name) or (isinstance(t, ast.Subscript) and isinstance(t.value, ast.Name) and
+                                            _harmless_value(t.slice) and _fresh_is_container(fi, t.value.id))
+                for t in s.targets):
+            continue      # ctx['k'] = <constant> on a dict built in this function
+        if isinstance(s, ast.AnnAssign) and isinstance(s.target, ast.Name) and _harmless_value(s.value):
+            continue
+        if isinstance(s, ast.Return) and _harmless_value(s.value):
+            continue
+        return s
+    return None
+
+
+def _catch_all(fi, node):
+    """(try, handler, problem) for the innermost enclosing try body whose handlers stop *every* exception of ``node``
+    (a bare ``except`` / ``except BaseException`` / ``except Exception``) -- (None, None, None) when there is none.
+    ``problem`` names what lets an exception out anyway (an earlier, narrower handler that raises, the catch-all
+    handler itself raising or doing something that can raise)."""
+    cur = node
+    suppressing = None
+    while cur is not None and cur is not fi.node:
+        par = fi.mod.parents.get(cur)
+        if isinstance(cur, ast.Lambda):
+            return None, None, None
+        if isinstance(cur, ast.GeneratorExp) and not (isinstance(par, ast.Call) and cur in par.args):
+            return None, None, None
+        if isinstance(par, ast.With) and cur in par.body and suppressing is None:
+            for it in par.items:
+                ce = it.context_expr
+                if isinstance(ce, ast.Call) and call_tail(ce) == 'suppress' and \
+                        any(norm(a) in ('Exception', 'BaseException') for a in ce.args):
+                    suppressing = par      # with contextlib.suppress(Exception): ...
+        if isinstance(par, ast.Try) and suppressing is None and cur in par.body and \
+                any(handler_catches(h, 'BaseException') or handler_catches(h, 'Exception') for h in par.handlers):
+            break
+        cur = par
+    if suppressing is not None:
+        return suppressing, suppressing, None
+    for tr, part in enclosing_tries(fi.mod, node, fi.node):
+        if part != 'body':
+            continue
+        for i, h in enumerate(tr.handlers):
+            if handler_catches(h, 'BaseException') or handler_catches(h, 'Exception'):
+                for h0 in tr.handlers[:i]:
+                    if any(isinstance(s, ast.Raise) for s in ast.walk(h0)):
+                        return tr, h, 'the narrower handler "except %s" before it raises' % norm(h0.type)
+                if any(isinstance(s, ast.Raise) for s in ast.walk(h)):
+                    return tr, h, 'the handler re-raises'
+                bad = _handler_completes(h, fi)
+                if bad is not None:
+                    return tr, h, 'the handler runs %s, which can raise itself' % short(bad, 60)
+                if tr.finalbody and any(isinstance(s, ast.Raise) for f in tr.finalbody for s in ast.walk(f)):
+                    return tr, h, 'the finally clause raises'
+                return tr, h, None
+    return None, None, None
+
+
+def _is_parser_call(fi, c):
+    if not isinstance(c, ast.Call):
+        return False
+    f = c.func
+    if isinstance(f, ast.Name):
+        if f.id == PARSER_CLASS:
+            return True
+        v = _deref(fi, f)            # parse = _ParsedTB.from_string; parse(text)
+        return isinstance(v, ast.Attribute) and v.attr in PARSER_METHODS and v is not f
+    return isinstance(f, ast.Attribute) and f.attr in PARSER_METHODS
+
+
+def _module_callee(repo, fi, c):
+    """FuncInfo of a module-level function of the analysed module called by plain name, else None."""
+    if isinstance(c, ast.Call) and isinstance(c.func, ast.Name):
+        try:
+            kind, m, obj = repo.resolve(fi.mod, c.func.id)
+        except Exception:
+            return None
+        if kind == 'func' and m is fi.mod:
+            return obj
+    return None
+
+
+def _cannot_raise(repo, g):
+    """The function has no expression that can raise for an odd input outside a sound catch-all, and no loose raise."""
+    inner, _ = _risky_nodes(repo, g)
+    inner = [m for m, w in inner if _catch_all(g, m)[1] is None or _catch_all(g, m)[2]]
+    loose_raise = [s for s in stmts_of(g.node) if isinstance(s, ast.Raise) and _catch_all(g, s)[1] is None]
+    return not inner and not loose_raise
+
+
+def _harmless_parser_method(repo, fi, c):
+    """``x.to_dict()``-like call of a parser method whose body cannot raise."""
+    if isinstance(c, ast.Call) and isinstance(c.func, ast.Attribute) and c.func.attr in PARSER_METHODS:
+        g = fi.mod.functions.get('%s.%s' % (PARSER_CLASS, c.func.attr))
+        return g is not None and _cannot_raise(repo, g)
+    return False
+
+
+def _leaky_parser_functions(repo, flaw):
+    """Module-level functions of flaw.py out of which a parser exception can propagate (they call the parser, or
+    another such function, outside a sound catch-all).  Methods of the parser class itself are not listed."""
+    funcs = [fi for q, fi in flaw.functions.items() if '.' not in q]
+    leaky, calls_parser = set(), set()
+    changed = True
+    while changed:
+        changed = False
+        for fi in funcs:
+            for c in walk_body(fi.node):
+                if not isinstance(c, ast.Call):
+                    continue
+                g = _module_callee(repo, fi, c)
+                site = (_is_parser_call(fi, c) and not _harmless_parser_method(repo, fi, c)) or (g is not None and g.qualname in leaky)
+                touches = _is_parser_call(fi, c) or (g is not None and g.qualname in calls_parser)
+                if touches and fi.qualname not in calls_parser:
+                    calls_parser.add(fi.qualname)
+                    changed = True
+                if site and fi.qualname not in leaky:
+                    tr, h, problem = _catch_all(fi, c)
+                    if h is None or problem:
+                        leaky.add(fi.qualname)
+                        changed = True
+    return leaky, calls_parser
+
+
+def _maybe_unbound_at(fi, name, use_stmt):
+    """Can control reach ``use_stmt`` without a completed assignment of local ``name``?  (An assignment whose right
+    hand side raises has not happened: only the exceptional edges of assignment nodes are followed.)"""
+    cfg = cfg_of(fi)
+    assign_nodes = set()
+    for st, v, idx in assigned_value(fi.node, name):
+        if isinstance(st, ast.stmt):
+            assign_nodes.update(cfg.nodes_of(st))
+            if isinstance(st, (ast.For, ast.AsyncFor)):
+                # the target is bound on the 'iter' node only
+                assign_nodes.difference_update(cfg.nodes_of(st))
+                assign_nodes.update(n.id for n in cfg.nodes if n.kind == 'iter' and n.stmt is st)
+    targets = set(cfg.nodes_of(use_stmt))
+    seen, todo = {cfg.entry}, [cfg.entry]
+    while todo:
+        n = todo.pop()
+        if n in targets:
+            return True
+        for m in cfg.succ[n]:
+            if m in seen:
+                continue
+            if n in assign_nodes and (n, m) not in cfg.exc_edges:
+                continue
+            seen.add(m)
+            todo.append(m)
+    return False
+
+
+# ------------------------------------------------------------------------------------------------ Windows-only code
+_PLATFORM_EXPRS = ('os.name', 'sys.platform', 'platform.system()')
+_WINDOWS_VALUES = ('nt', 'win32', 'Windows', 'cygwin', 'ce')
+
+
+def _windows_test(t, mod, depth=0):
+    """+1 when ``t`` true implies Windows, -1 when ``t`` false implies Windows, 0 when it says nothing."""
+    if isinstance(t, ast.Name) and depth < 3:
+        vals = mod.assigns.get(t.id) or []
+        if len(vals) == 1 and isinstance(vals[0], ast.expr):
+            return _windows_test(vals[0], mod, depth + 1)
+        return 0
+    if isinstance(t, ast.UnaryOp) and isinstance(t.op, ast.Not):
+        return -_windows_test(t.operand, mod, depth + 1)
+    if isinstance(t, ast.Compare) and len(t.ops) == 1:
+        l, r, op = t.left, t.comparators[0], t.ops[0]
+        if norm(r) in _PLATFORM_EXPRS and isinstance(op, (ast.Eq, ast.NotEq, ast.Is, ast.IsNot)):
+            l, r = r, l
+        if norm(l) not in _PLATFORM_EXPRS:
+            return 0
+        if isinstance(r, ast.Constant) and r.value in _WINDOWS_VALUES:
+            if isinstance(op, (ast.Eq, ast.Is)):
+                return 1
+            if isinstance(op, (ast.NotEq, ast.IsNot)):
+                return -1
+        if isinstance(r, (ast.Tuple, ast.List, ast.Set)) and r.elts and \
+                all(isinstance(e, ast.Constant) and e.value in _WINDOWS_VALUES for e in r.elts):
+            if isinstance(op, ast.In):
+                return 1
+            if isinstance(op, ast.NotIn):
+                return -1
+        return 0
+    if isinstance(t, ast.Call) and norm(t) in ("sys.platform.startswith('win')", "os.name.startswith('nt')"):
+        return 1
+    return 0
+
+
+def windows_only(mod, u):
+    """Exemption for R20.a: every load of the name is dominated by a Windows-only condition (dead on the analysed platform)."""
+    for nd in u.nodes:
+        fnode = mod.enclosing_function(nd)
+        if fnode is None:
+            return None
+        fi = mod.func_of_node(fnode)
+        if fi is None:
+            return None
+        gated = False
+        for t, p in conds(fi, nd):
+            w = _windows_test(t, mod)
+            if (w == 1 and p is True) or (w == -1 and p is False):
+                gated = True
+                break
+        if not gated:
+            return None
+    return 'dominated by a Windows-only test (os.name == \'nt\')' if u.nodes else None
+
+
+# ------------------------------------------------------------------------------------------------ the failsafe, by role
+def _flat_view(repo, mod):
+    """A copy of the analysed module in which the *public* plain functions that are only ever called (never passed
+    around as values, never re-bound, not named by any rule) are dissolved into their callers as well -- the loader
+    does this for private helpers only.  A refactoring that splits create_app / from_string into builder functions
+    then presents the same flat shape whatever the helpers are called.  Falls back to the module itself."""
+    import copy
+    from .. import normalize
+    try:
+        anchors = normalize.anchor_names()
+        used_as_value = set()
+        for n in ast.walk(mod.tree):
+            if isinstance(n, ast.Name) and isinstance(n.ctx, ast.Load):
+                par = mod.parents.get(n)
+                if not (isinstance(par, ast.Call) and par.func is n):
+                    used_as_value.add(n.id)
+        called = set(n.func.id for n in ast.walk(mod.tree) if isinstance(n, ast.Call) and isinstance(n.func, ast.Name))
+        cands = []
+        for st in mod.tree.body:
+            if isinstance(st, ast.FunctionDef) and not st.name.startswith('_') and st.name not in anchors and \
+                    st.name in called and st.name not in used_as_value and len(mod.assigns.get(st.name, [])) == 1:
+                probe = copy.copy(st)
+                probe.name = '_' + st.name
+                if normalize._eligible_def(probe) == 'func':
+                    cands.append(st.name)
+        if not cands:
+            return mod
+        view = copy.copy(mod)
+        view.tree = copy.deepcopy(mod.tree)
+        inl = normalize.Inliner(view.tree, anchors)
+        for st in view.tree.body:
+            if isinstance(st, ast.FunctionDef) and st.name in cands:
+                inl.mod_helpers[st.name] = normalize.Helper(st, 'func')
+        n = inl.run()
+        if not n:
+            return mod
+        view.tree = normalize.Canon().visit(view.tree)
+        ast.fix_missing_locations(view.tree)
+        view.functions, view.classes, view.imports, view.assigns, view.parents = {}, {}, {}, {}, {}
+        view._index()
+        view.inlined_calls = mod.inlined_calls + n
+        return view
+    except Exception:
+        return mod
+
+
+_METHOD_ROUTES = ('GET', 'POST', 'PUT', 'DELETE', 'HEAD', 'OPTIONS', 'PATCH', 'TRACE', 'CONNECT')
+
+
+class _Route(object):
+    def __init__(self, kind, node, pattern=None, endpoint=None, endpoint_text=None, render=None, app=None, methods=None):
+        self.kind, self.node, self.pattern, self.endpoint, self.endpoint_text, self.render, self.app, self.methods = \
+            kind, node, pattern, endpoint, endpoint_text, render, app, methods
+
+
+class _Failsafe(object):
+    """What create_app builds, read off the Application(...) call it returns."""
+
+    def __init__(self, repo):
+        self.repo = repo
+        self.flaw_src = repo.mod(FLAW)                 # as loaded (what symtable sees)
+        self.flaw = _flat_view(repo, self.flaw_src)    # public call-only helpers dissolved, too
+        self.ca = self.flaw.func('create_app')
+        self._cache = {}
+
+    def _memo(self, key, fn):
+        if key not in self._cache:
+            try:
+                self._cache[key] = (True, fn())
+            except AnalysisError as e:
+                self._cache[key] = (False, e)
+        ok, v = self._cache[key]
+        if not ok:
+            raise AnalysisError(str(v))
+        return v
+
+    # -- the Application(...) call ---------------------------------------------------------------------
+    def _is_application(self, c):
+        if not isinstance(c, ast.Call):
+            return False
+        if call_tail(c) == 'Application':
+            return True
+        if isinstance(c.func, ast.Name):
+            try:
+                kind, m, obj = self.repo.resolve(self.flaw, c.func.id)
+            except Exception:
+                return False
+            return kind == 'class' and obj.name == 'Application'
+        return False
+
+    @property
+    def app_call(self):
+        def find():
+            calls = [c for c in walk_body(self.ca.node) if self._is_application(c)]
+            if len(calls) != 1:
+                raise AnalysisError('create_app: expected one Application(...) construction, found %d' % len(calls))
+            return calls[0]
+        return self._memo('app', find)
+
+    def _app_arg(self, name, pos):
+        v = argn(self.app_call, name, pos)
+        if v is None or (isinstance(v, ast.Constant) and v.value is None):
+            raise AnalysisError('create_app: Application(...) is not given %s' % name)
+        return v
+
+    # -- routes ----------------------------------------------------------------------------------------------
+    @property
+    def routes_node(self):
+        return self._app_arg('routes', 0)
+
+    @property
+    def routes(self):
+        return self._memo('routes', self._routes)
+
+    def _routes(self):
+        ca = self.ca
+        out = []
+        for e in _seq_elements(ca, self.routes_node, 'create_app routes'):
+            e0 = _deref(ca, e)
+            methods = None
+            if isinstance(e0, ast.Subscript) and isinstance(e0.slice, (ast.Constant, ast.UnaryOp)):
+                # pages[0] / pages[-1] of a list that can be followed
+                idx = _const_index(e0.slice)
+                seq = _seq_elements(ca, e0.value, 'create_app routes')
+                if not isinstance(idx, int) or not -len(seq) <= idx < len(seq):
+                    raise AnalysisError('create_app: route entry %s cannot be read' % short(e0))
+                e0 = _deref(ca, seq[idx])
+            if isinstance(e0, ast.BinOp) and isinstance(e0.op, ast.Add):
+                parts = _seq_elements(ca, e0, 'create_app route entry')      # ('/',) + page
+            elif isinstance(e0, ast.Tuple) and not any(isinstance(x, ast.Starred) for x in e0.elts):
+                parts = list(e0.elts)
+            elif isinstance(e0, ast.Call) and call_tail(e0) == 'SubApplication' and len(e0.args) == 2 and not e0.keywords:
+                parts = list(e0.args)
+            elif isinstance(e0, ast.Call) and call_tail(e0) in ('Route',) + _METHOD_ROUTES and not any(k.arg is None for k in e0.keywords):
+                parts = [argn(e0, 'pattern', 0), argn(e0, 'endpoint', 1), argn(e0, 'render', 2)]
+                if call_tail(e0) in _METHOD_ROUTES:
+                    methods = call_tail(e0)
+                mk = argn(e0, 'methods', None)
+                if mk is not None and not (isinstance(mk, ast.Constant) and mk.value is None):
+                    methods = norm(mk)
+                extra = [k.arg for k in e0.keywords if k.arg not in ('pattern', 'endpoint', 'render', 'methods')]
+                if None in parts or extra or len(e0.args) > 3:
+                    raise AnalysisError('create_app: route %s cannot be read' % short(e0))
+            else:
+                raise AnalysisError('create_app: route entry %s is not a (pattern, endpoint, render) tuple' % short(e))
+            pattern = _fold(self.repo, ca, parts[0]) if parts else _UNFOLDED
+            if not isinstance(pattern, str):
+                raise AnalysisError('create_app: route pattern %s is not a constant' % short(parts[0] if parts else e))
+            if len(parts) == 3:
+                ep = _deref(ca, parts[1])
+                epf = None
+                if isinstance(ep, ast.Name):
+                    try:
+                        kind, m, obj = self.repo.resolve(self.flaw, ep.id)
+                    except Exception:
+                        kind, obj = 'unknown', None
+                    if kind == 'func':
+                        epf = obj
+                render = _fold(self.repo, ca, parts[2])
+                if render is _UNFOLDED:
+                    rc = _deref(ca, parts[2])
+                    # render = factory('name'): the render function the factory would have been asked for anyway
+                    if isinstance(rc, ast.Call) and len(rc.args) == 1 and not rc.keywords and isinstance(rc.func, ast.Name) and \
+                            isinstance(_deref(ca, rc.func), ast.Call) and isinstance(_fold(self.repo, ca, rc.args[0]), str):
+                        render = _fold(self.repo, ca, rc.args[0])
+                        self._explicit_renders = getattr(self, '_explicit_renders', []) + [rc.func]
+                    else:
+                        render = norm(rc)
+                out.append(_Route('page', e, pattern, epf, epf.qualname if epf is not None else norm(ep), render, methods=methods))
+            elif len(parts) == 2:
+                out.append(_Route('mount', e, pattern, app=_deref(ca, parts[1])))
+            else:
+                raise AnalysisError('create_app: route entry %s has %d elements' % (short(e0), len(parts)))
+        if not out:
+            raise AnalysisError('create_app: no routes found')
+        return out
+
+    @property
+    def page_routes(self):
+        return [r for r in self.routes if r.kind == 'page']
+
+    @property
+    def endpoint(self):
+        def find():
+            eps = [r.endpoint for r in self.page_routes]
+            if not eps or any(e is None for e in eps):
+                raise AnalysisError('failsafe endpoint %r is not a module-level function'
+                                    % sorted(set(r.endpoint_text for r in self.page_routes)))
+            if len(set(e.key for e in eps)) != 1:
+                raise AnalysisError('page routes name several endpoints: %r' % sorted(set(e.qualname for e in eps)))
+            self.repo.functions_touched.add(eps[0].key)
+            return eps[0]
+        return self._memo('endpoint', find)
+
+    # -- resources ---------------------------------------------------------------------------------------------
+    @property
+    def resources_node(self):
+        return self._app_arg('resources', 1)
+
+    @property
+    def resources(self):
+        return self._memo('resources', lambda: _dict_items(self.ca, self.resources_node, 'create_app resources'))
+
+    def resource_use_stmt(self, key):
+        """The statement in which the value of resource ``key`` is read."""
+        v = self.resources.get(key)
+        return stmt_of(self.flaw, v) if v is not None else None
+
+    # -- template ----------------------------------------------------------------------------------------------
+    @property
+    def registrations(self):
+        """[(function, register_source call)]: in create_app, else in the functions of the module it calls."""
+        ca = self.ca
+        regs = [(ca, c) for c in walk_body(ca.node) if isinstance(c, ast.Call) and call_tail(c) == 'register_source']
+        if not regs:
+            for c in walk_body(ca.node):
+                g = _module_callee(self.repo, ca, c)
+                if g is not None:
+                    regs += [(g, c2) for c2 in walk_body(g.node) if isinstance(c2, ast.Call) and call_tail(c2) == 'register_source']
+        return regs
+
+    @property
+    def template(self):
+        """(registered name, source expression, folded text, register_source call, function holding that call)"""
+        def find():
+            regs = self.registrations
+            if len(regs) != 1:
+                raise AnalysisError('create_app: expected one register_source(...) call, found %d' % len(regs))
+            fi, c = regs[0]
+            name_e, src_e = argn(c, 'name', 0), argn(c, 'source', 1)
+            if name_e is None or src_e is None:
+                raise AnalysisError('create_app: cannot read %s' % short(c))
+            name = _fold(self.repo, fi, name_e)
+            text = _fold(self.repo, fi, src_e)
+            if not isinstance(text, str):
+                raise AnalysisError('cannot fold the registered template source %s' % short(src_e))
+            return (name if name is not _UNFOLDED else norm(name_e)), _deref(fi, src_e), text, c, fi
+        return self._memo('template', find)
+
+    def factory_is_registered_one(self):
+        """The render factory handed to Application is the object register_source was called on."""
+        ca = self.ca
+        _, _, _, reg, rfi = self.template
+        rf = argn(self.app_call, 'render_factory', 3)
+        if rf is None or not isinstance(reg.func, ast.Attribute):
+            return False
+        holder = _canon_name(rfi, reg.func.value)
+        if holder is None:
+            return False
+        if rfi is ca:
+            if any(_canon_name(ca, f) != holder for f in getattr(self, '_explicit_renders', [])):
+                return False
+            return _canon_name(ca, rf) == holder
+        made = _deref(ca, rf)
+        g = _module_callee(self.repo, ca, made) if isinstance(made, ast.Call) else None
+        if g is None or g.key != rfi.key:
+            return False
+        rets = returns_of(rfi)
+        return bool(rets) and all(r.value is not None and _canon_name(rfi, r.value) == holder for r in rets)
+
+    # -- endpoint context --------------------------------------------------------------------------------------
+    @property
+    def context(self):
+        """[(return stmt, {key: value expr})] of the endpoint."""
+        def find():
+            epf = self.endpoint
+            out = []
+            for r in returns_of(epf):
+                if r.value is None:
+                    raise AnalysisError('%s returns nothing on some path' % epf.qualname)
+                out.append((r, _dict_items(epf, r.value, '%s context' % epf.qualname)))
+            if not out:
+                raise AnalysisError('%s has no return' % epf.qualname)
+            return out
+        return self._memo('context', find)
+
+
+def _param_behind(fi, expr):
+    """Name of the parameter of ``fi`` an expression denotes (aliases followed), else None."""
+    e = _deref(fi, expr)
+    if isinstance(e, ast.Name) and e.id in _all_params(fi) and not assigned_value(fi.node, e.id):
+        return e.id
+    return None
+
+
+def _is_given_list(fi, expr, param, depth=0):
+    """``expr`` denotes the object passed as ``param`` (or, when that is falsy, an empty stand-in)."""
+    if depth > 4:
+        return False
+    if isinstance(expr, ast.Constant):
+        return expr.value is None
+    if isinstance(expr, (ast.List, ast.Tuple)):
+        return not expr.elts
+    if isinstance(expr, ast.BoolOp) and isinstance(expr.op, ast.Or):
+        return all(_is_given_list(fi, v, param, depth + 1) for v in expr.values) and \
+            any(isinstance(v, ast.Name) for v in expr.values)
+    if isinstance(expr, ast.Name):
+        if expr.id == param:
+            return not assigned_value(fi.node, param) or \
+                all(idx is None and not isinstance(st, ast.AugAssign) and _is_given_list(fi, v, param, depth + 1)
+                    for st, v, idx in assigned_value(fi.node, param))
+        binds = assigned_value(fi.node, expr.id)
+        if not binds or expr.id in _all_params(fi):
+            return False
+        return all(idx is None and isinstance(st, (ast.Assign, ast.AnnAssign)) and _is_given_list(fi, v, param, depth + 1)
+                   for st, v, idx in binds)
+    return False
+
+
+# ------------------------------------------------------------------------------------------------ rule groups
+def _group(rep, fn, *args):
+    """Run one group of rules: an AnalysisError (or an internal error) in it is a gap, the other groups still run."""
+    def wrapped():
+        try:
+            return fn(*args)
+        except AnalysisError:
+            raise
+        except RecursionError:
+            raise AnalysisError('%s: recursion limit' % fn.__name__)
+        except Exception as e:   # a rule must never crash the checker
+            raise AnalysisError('%s: internal error %s: %s' % (fn.__name__, type(e).__name__, e))
+    wrapped.__name__ = fn.__name__.lstrip('_')
+    return rep.guard(wrapped)
+
+
+def _names_resolve(rep, fs):
+    flaw, server = fs.flaw_src, rep.repo.mod('clastic.server')
     rep.rule('R20.a', 'every global Name load in flaw.py (all scopes) and in the failsafe launcher functions of server.py resolves')
     check_unbound(rep, 'R20.a', [flaw])
     launcher = {'run_simple', 'run_simple.serve_error_app', 'restart_with_reloader', 'restart_with_reloader.consume_lines',
                 'run_with_reloader'}
-    check_unbound(rep, 'R20.a', [server], scope_filter=lambda m, sc: sc in launcher, exempt=platform_gated)
+    check_unbound(rep, 'R20.a', [server], scope_filter=lambda m, sc: sc in launcher, exempt=windows_only)
     rep.floor('R20.a', 8)
 
-    # ---- R20.b -----------------------------------------------------------
-    rep.rule('R20.b', 'parsing is under a catch-all handler; routes share endpoint and template; resources = endpoint params')
-    ca = flaw.func('create_app')
-    parse_calls = [c for c in walk_body(ca.node) if isinstance(c, ast.Call) and
-                   (call_tail(c) in ('from_string', 'to_dict') or call_name(c) == '_ParsedTB')]
-    if not parse_calls:
+
+def _parser_contained(rep, fs):
+    """R20.b (1): no exception of the traceback parser, and none of the endpoint's own text handling, gets out."""
+    repo, flaw, ca = fs.repo, fs.flaw, fs.ca
+    leaky, calls_parser = _leaky_parser_functions(repo, flaw)
+    sites = []
+    for c in walk_body(ca.node):
+        if not isinstance(c, ast.Call):
+            continue
+        g = _module_callee(repo, ca, c)
+        if _is_parser_call(ca, c) or (g is not None and g.qualname in leaky):
+            sites.append(c)
+    harmless = [c for c in sites if _harmless_parser_method(repo, ca, c) and (_catch_all(ca, c)[1] is None or _catch_all(ca, c)[2])]
+    for c in harmless:
+        sites.remove(c)
+        rep.ok('R20.b', fkey(ca, c), 'this parser method cannot raise (no call, subscript or raise in its body)', flaw, c)
+    contained_elsewhere = [c for c in walk_body(ca.node) if isinstance(c, ast.Call) and _module_callee(repo, ca, c) is not None
+                           and _module_callee(repo, ca, c).qualname in calls_parser]
+    if not sites and not contained_elsewhere and not harmless:
         raise AnalysisError('create_app no longer calls the traceback parser')
-    for c in parse_calls:
-        h = protected_by(ca, c, 'BaseException') or protected_by(ca, c, 'Exception')
-        ok = h is not None
-        sub_ok = False
-        if ok:
-            # handler substitutes a constant for parsed_error and does not re-raise
-            sub_ok = any(isinstance(s, ast.Assign) and isinstance(s.value, (ast.Dict, ast.Constant)) for s in h.body) \
-                and not any(isinstance(s, ast.Raise) for s in ast.walk(h))
-        rep.check('R20.b', fkey(ca, c), ok and sub_ok,
-                  'parser call is under a catch-all handler that substitutes a constant' if ok and sub_ok else
-                  'parser call %s can raise out of create_app (no catch-all handler with a constant fallback)' % short(c),
-                  flaw, c)
-    gi = flaw.func('get_flaw_info')
-    subs = [n for n in walk_body(gi.node) if isinstance(n, ast.Subscript) and isinstance(n.value, ast.Call)
-            and call_tail(n.value) == 'splitlines']
-    for s in subs:
-        h = protected_by(gi, s, 'BaseException') or protected_by(gi, s, 'Exception')
-        rep.check('R20.b', fkey(gi, s), h is not None,
-                  'last-line extraction is under a catch-all handler' if h else
-                  'tb_str.splitlines()[..] can raise (empty / non-text input) outside any handler', flaw, s)
-    # routes: literal list in create_app
-    routes = None
-    for st in stmts_of(ca.node):
-        if isinstance(st, ast.Assign) and norm(st.targets[0]) == 'routes' and isinstance(st.value, ast.List):
-            routes = st.value
-    if routes is None:
-        raise AnalysisError('create_app: literal routes list not found')
-    page_routes = []
-    for e in routes.elts:
-        if isinstance(e, ast.Tuple) and len(e.elts) == 3 and isinstance(e.elts[0], ast.Constant):
-            page_routes.append((e.elts[0].value, norm(e.elts[1]), repo.try_fold(e.elts[2], flaw, norm(e.elts[2]))))
-    pats = [p for p, _, _ in page_routes]
+    for c in sites:
+        tr, h, problem = _catch_all(ca, c)
+        ok = h is not None and not problem
+        rep.check('R20.b', fkey(ca, c), ok,
+                  'parser call is under a catch-all handler that completes with a harmless value' if ok else
+                  'parser call %s can raise out of create_app (%s)'
+                  % (short(c), problem or 'no catch-all handler with a constant fallback'), flaw, c)
+    for c in contained_elsewhere:
+        if c not in sites:
+            rep.ok('R20.b', fkey(ca, c), 'the called function contains every parser exception itself', flaw, c)
+    # whatever create_app hands on as the parsed error is bound on every path, the handler's included
+    try:
+        res = fs.resources
+    except AnalysisError:
+        res = None
+    if res is not None:
+        for k, v in sorted(res.items(), key=lambda kv: str(kv[0])):
+            if not isinstance(v, ast.Name) or v.id in _all_params(ca) or not assigned_value(ca.node, v.id):
+                continue
+            binds = assigned_value(ca.node, v.id)
+            guarded = [st for st, val, idx in binds if isinstance(st, ast.stmt) and
+                       any(part in ('body', 'handler', 'orelse') for _, part in enclosing_tries(flaw, st, ca.node))]
+            if not guarded:
+                continue
+            use = stmt_of(flaw, v)
+            unb = _maybe_unbound_at(ca, v.id, use)
+            rep.check('R20.b', fkey(ca, 'resource %s bound' % k), not unb,
+                      'local %s is assigned on every path to the resources (normal and handler)' % v.id if not unb else
+                      'resource %r reads local %s, which is unassigned when the parser raised (the handler substitutes nothing): '
+                      'UnboundLocalError out of create_app' % (k, v.id), flaw, use)
+    # create_app only passes its inputs along: anything it does *with* them happens where it cannot stop the construction
+    from .common import implies_present
+    cps = ca.params()
+    if len(cps) >= 2:
+        text_alias, files_alias = _aliases_of(ca, {cps[0]}), _aliases_of(ca, {cps[1]})
+        for n in walk_body(ca.node):
+            if not (isinstance(n, (ast.Attribute, ast.Subscript)) and isinstance(n.ctx, ast.Load) and isinstance(n.value, ast.Name)):
+                continue
+            if n.value.id in text_alias:
+                tr, h, problem = _catch_all(ca, n)
+                ok = h is not None and not problem
+                rep.check('R20.b', fkey(ca, n), ok, 'use of the error text is under a catch-all handler' if ok else
+                          '%s on the error text can raise (None / bytes / odd text) %s: create_app does not construct'
+                          % (short(n, 50), 'outside any catch-all handler' if h is None else '-- ' + problem), flaw, n)
+            elif n.value.id in files_alias:
+                tr, h, problem = _catch_all(ca, n)
+                cs = conds(ca, n)
+                ok = (h is not None and not problem) or any(implies_present(cs, a) for a in files_alias)
+                rep.check('R20.b', fkey(ca, n), ok, 'the file list is only touched when it was given' if ok else
+                          '%s runs also when no file list was given (monitored_files=None): create_app does not construct'
+                          % short(n, 50), flaw, n)
+    # the endpoint runs per request: its own text handling is contained the same way
+    epf = fs.endpoint
+    risky, n_risky = _risky_nodes(repo, epf)
+    for n, why in risky:
+        n_risky += 1
+        tr, h, problem = _catch_all(epf, n)
+        ok = h is not None and not problem
+        rep.check('R20.b', fkey(epf, n), ok,
+                  '%s is under a catch-all handler that completes with a harmless value' % why if ok else
+                  '%s can raise (empty / non-text input) %s' % (short(n), 'outside any catch-all handler' if h is None else '-- ' + problem),
+                  flaw, n)
+    ctx_last = [v for _, items in fs.context for k, v in items.items() if k == 'last_line']
+    if not n_risky and ctx_last and not all(_param_behind(epf, v) for v in ctx_last):
+        raise AnalysisError('%s: the computation of last_line was not found' % epf.qualname)
+
+
+_SAFE_CONSTRUCTORS = ('dict', 'list', 'tuple', 'set', 'frozenset')
+_SAFE_PREDICATES = ('isinstance', 'bool', 'id', 'type', 'callable')
+
+
+_CONTAINER_METHODS = ('update', 'setdefault', 'append', 'extend', 'insert', 'add', 'copy', 'items', 'keys', 'values', 'get')
+
+
+def _fresh_is_container(fi, name):
+    """Every binding of the local is a dict / list / set display or constructor call (so the container methods are the builtin ones)."""
+    binds = assigned_value(fi.node, name)
+    return bool(binds) and all(
+        idx is None and (isinstance(v, (ast.Dict, ast.List, ast.Set, ast.DictComp, ast.ListComp, ast.SetComp)) or
+                         (isinstance(v, ast.Call) and isinstance(v.func, ast.Name) and v.func.id in ('dict', 'list', 'set')))
+        for st, v, idx in binds)
+
+
+def _safe_builtin_call(n):
+    if not (isinstance(n.func, ast.Name) and not any(k.arg is None for k in n.keywords)):
+        return False
+    if n.func.id in _SAFE_CONSTRUCTORS:
+        # dict(a=x) / list() / tuple([..]) cannot raise; list(x) can (x not iterable)
+        return all(isinstance(a, (ast.Dict, ast.List, ast.Tuple, ast.Set, ast.Constant)) for a in n.args)
+    if n.func.id in _SAFE_PREDICATES:
+        return not any(isinstance(a, ast.Starred) for a in n.args)
+    return False
+
+
+def _risky_nodes(repo, fi, depth=0, seen=None):
+    """([(node, description)], number of self-contained module calls): expressions of ``fi`` that can raise for an
+    odd input -- subscript loads and calls (other than container constructors and calls of module functions that
+    contain their own exceptions)."""
+    out, contained = [], 0
+    seen = set() if seen is None else seen
+    seen.add(fi.key)
+    in_handlers = set()
+    for n in walk_body(fi.node):
+        if isinstance(n, ast.ExceptHandler):
+            for s in ast.walk(n):
+                in_handlers.add(id(s))
+    from .. import effects
+    fresh = effects.fresh_locals(repo, fi)
+    for n in walk_body(fi.node):
+        if id(n) in in_handlers:
+            continue      # handler bodies are judged by _handler_completes
+        if isinstance(n, ast.Call) and isinstance(n.func, ast.Attribute) and isinstance(n.func.value, ast.Name) and \
+                n.func.value.id in fresh and n.func.attr in _CONTAINER_METHODS and _fresh_is_container(fi, n.func.value.id):
+            continue      # info.update(k=v) / lines.append(x) on a container built right here
+        if isinstance(n, ast.Subscript) and isinstance(n.ctx, ast.Load):
+            out.append((n, 'subscript %s' % short(n, 50)))
+        elif isinstance(n, ast.Call):
+            if _safe_builtin_call(n):
+                continue
+            if call_tail(n) == 'suppress' and isinstance(fi.mod.parents.get(n), ast.withitem):
+                continue      # with suppress(Exception): -- the guard itself
+            g = _module_callee(repo, fi, n)
+            if g is not None and depth < 4 and g.key not in seen:
+                inner, _ = _risky_nodes(repo, g, depth + 1, seen)
+                inner = [m for m, w in inner if _catch_all(g, m)[1] is None or _catch_all(g, m)[2]]
+                loose_raise = [s for s in stmts_of(g.node) if isinstance(s, ast.Raise) and _catch_all(g, s)[1] is None]
+                if not inner and not loose_raise:
+                    contained += 1
+                    continue
+            par = fi.mod.parents.get(n)
+            if isinstance(par, ast.Subscript) and par.value is n:
+                continue  # reported with the subscript around it
+            out.append((n, 'call %s' % short(n, 50)))
+    return out, contained
+
+
+def _routes_agree(rep, fs):
+    """R20.b (2): route / template / resource agreement."""
+    repo, flaw, ca = fs.repo, fs.flaw, fs.ca
+    routes = fs.routes
+    rnode = fs.routes_node
+    pages = fs.page_routes
+    pats = [r.pattern for r in pages]
     ok = '/' in pats and any('*>' in p for p in pats)
     rep.check('R20.b', fkey(ca, 'routes'), ok, 'root and catch-all routes present: %r' % pats if ok else
-              'failsafe lacks the root or the catch-all route: %r' % pats, flaw, routes)
-    eps = set(ep for _, ep, _ in page_routes)
-    tmpls = set(t for _, _, t in page_routes)
-    rep.check('R20.b', fkey(ca, 'routes same endpoint/template'), len(eps) == 1 and len(tmpls) == 1,
-              'all page routes use endpoint %s and template %s' % (sorted(eps), sorted(tmpls)) if len(eps) == 1 and len(tmpls) == 1 else
-              'page routes disagree on endpoint/template: %r' % page_routes, flaw, routes)
-    # registered template name == rendered name, source == _FLAW_TEMPLATE
-    regs = [c for c in walk_body(ca.node) if isinstance(c, ast.Call) and call_tail(c) == 'register_source']
-    reg_ok = False
-    tmpl_name = None
-    if len(regs) == 1 and len(regs[0].args) >= 2:
-        tmpl_name = repo.try_fold(regs[0].args[0], flaw)
-        reg_ok = tmpl_name in tmpls and norm(regs[0].args[1]) == '_FLAW_TEMPLATE'
+              'failsafe lacks the root or the catch-all route: %r' % pats, flaw, rnode)
+    limited = [(r.pattern, r.methods) for r in pages if r.methods]
+    rep.check('R20.b', fkey(ca, 'routes any method'), not limited, 'the page routes answer every method' if not limited else
+              'page routes are restricted to some methods (%r): other methods get 405 instead of the page' % limited, flaw, rnode)
+    eps = set(r.endpoint_text for r in pages)
+    tmpls = set(r.render if isinstance(r.render, str) else repr(r.render) for r in pages)
+    same = len(eps) == 1 and len(tmpls) == 1
+    rep.check('R20.b', fkey(ca, 'routes same endpoint/template'), same,
+              'all page routes use endpoint %s and template %s' % (sorted(eps), sorted(tmpls)) if same else
+              'page routes disagree on endpoint/template: %r' % [(r.pattern, r.endpoint_text, r.render) for r in pages], flaw, rnode)
+    # registered template name == rendered name
+    tmpl_name, src_e, text, reg, _rfi = fs.template
+    reg_ok = tmpl_name in tmpls
     rep.check('R20.b', fkey(ca, 'register_source'), reg_ok,
-              'template %r is registered from _FLAW_TEMPLATE and is the one the routes render' % tmpl_name if reg_ok else
-              'registered template (%r) and rendered template (%r) differ' % (tmpl_name, sorted(tmpls)), flaw,
-              regs[0] if regs else ca.node)
+              'template %r is registered from %s and is the one the routes render' % (tmpl_name, short(src_e, 40)) if reg_ok else
+              'registered template (%r) and rendered template (%r) differ' % (tmpl_name, sorted(tmpls)), flaw, reg)
     # the render factory given to Application is the one the template was registered with
-    app_calls = [c for c in walk_body(ca.node) if isinstance(c, ast.Call) and call_tail(c) == 'Application']
-    ok = len(app_calls) == 1 and kwarg(app_calls[0], 'render_factory') is not None and regs and \
-        norm(kwarg(app_calls[0], 'render_factory')) == norm(regs[0].func.value)
+    ok = fs.factory_is_registered_one()
     rep.check('R20.b', fkey(ca, 'render_factory'), ok, 'Application gets the render factory holding the template' if ok else
-              'Application is not given the render factory the template was registered with', flaw,
-              app_calls[0] if app_calls else ca.node)
+              'Application is not given the render factory the template was registered with', flaw, fs.app_call)
     # resources keys == endpoint parameters
-    res = None
-    for st in stmts_of(ca.node):
-        if isinstance(st, ast.Assign) and norm(st.targets[0]) == 'resources' and isinstance(st.value, ast.Dict):
-            res = st.value
-    if res is None:
-        raise AnalysisError('create_app: literal resources dict not found')
-    keys = set(k.value for k in res.keys if isinstance(k, ast.Constant))
-    ep_name = sorted(eps)[0] if eps else None
-    epf = flaw.functions.get(ep_name)
-    if epf is None:
-        raise AnalysisError('failsafe endpoint %r not found' % ep_name)
+    res = fs.resources
+    keys = set(res)
+    epf = fs.endpoint
     a = epf.node.args
-    required = [x.arg for x in a.args[:len(a.args) - len(a.defaults)]] + \
+    pos = a.posonlyargs + a.args
+    required = [x.arg for x in pos[:len(pos) - len(a.defaults)]] + \
         [x.arg for x, d in zip(a.kwonlyargs, a.kw_defaults) if d is None]
     builtins_ = set(repo.mod('clastic.route').const('RESERVED_ARGS'))
-    missing = [p for p in required if p not in keys and p not in builtins_]
+    path_vars = set()
+    missing = [p for p in required if p not in keys and p not in builtins_ and p not in path_vars]
     rep.check('R20.b', fkey(ca, 'resources vs endpoint params'), not missing,
               'every required endpoint parameter %r is a resource or built-in' % required if not missing else
-              'endpoint parameters %r are not provided by create_app resources %r' % (missing, sorted(keys)), flaw, res)
-    # the resource values are the function's inputs
-    vals = dict((k.value, norm(v)) for k, v in zip(res.keys, res.values) if isinstance(k, ast.Constant))
-    ok = vals.get('tb_str') == ca.params()[0]
-    rep.check('R20.b', fkey(ca, 'tb_str resource'), ok, 'the error text itself is the tb_str resource' if ok else
-              'tb_str resource is not the given error text: %r' % vals.get('tb_str'), flaw, res)
+              'endpoint parameters %r are not provided by create_app resources %r' % (missing, sorted(map(str, keys))), flaw,
+              fs.resources_node)
+    # nothing else is configured that changes which requests reach the page (slash handling, middlewares, error handler)
+    app = fs.app_call
+    extras = []
+    for name_, pos_ in (('middlewares', 2), ('error_handler', 4)):
+        v = argn(app, name_, pos_)
+        if v is not None and not (isinstance(v, ast.Constant) and v.value is None) and \
+                not (isinstance(v, (ast.List, ast.Tuple)) and not v.elts):
+            extras.append('%s=%s' % (name_, short(v, 30)))
+    for k in app.keywords:
+        if k.arg == 'slash_mode':
+            val = k.value
+            dflt = None
+            try:
+                ai = repo.mod('clastic.application').functions.get('Application.__init__')
+                for n_ in ast.walk(ai.node):
+                    if isinstance(n_, ast.Call) and call_tail(n_) == 'pop' and n_.args and isinstance(n_.args[0], ast.Constant) \
+                            and n_.args[0].value == 'slash_mode' and len(n_.args) == 2:
+                        dflt = norm(n_.args[1])
+            except Exception:
+                dflt = None
+            if dflt is None or norm(val).rpartition('.')[2] != dflt.rpartition('.')[2]:
+                extras.append('slash_mode=%s' % short(val, 30))
+        elif k.arg is None or k.arg not in ('routes', 'resources', 'middlewares', 'render_factory', 'error_handler', 'debug'):
+            extras.append('%s=%s' % (k.arg or '**', short(k.value, 30)))
+    if len(app.args) > 5 or any(isinstance(a, ast.Starred) for a in app.args):
+        extras.append('extra positional arguments')
+    rep.check('R20.b', fkey(ca, 'Application configuration'), not extras,
+              'the failsafe Application is configured with routes, resources and render factory only' if not extras else
+              'the failsafe Application is also given %s: requests may be answered by something other than the page' % ', '.join(extras),
+              flaw, app)
     rep.floor('R20.b', 7)
+    last = routes[-1]
+    ok = last.kind == 'page' and '*>' in last.pattern
+    rep.check('R20.b', fkey(ca, 'catch-all last'), ok,
+              'the catch-all page route is the last route (everything not served before it gets the page)' if ok else
+              'the catch-all route is not the last route', flaw, rnode)
 
+
+def _static_nonbreaking(rep, fs):
     # the embedded asset application must not pre-empt the catch-all page: every error it raises is non-breaking
-    from .c14 import check_nonbreaking
-    if check_nonbreaking(rep, 'R20.b') < 4:
-        raise AnalysisError('static serving raises not found')
-    ok = any(isinstance(e, ast.Tuple) and len(e.elts) == 2 and isinstance(e.elts[1], ast.Call) and call_name(e.elts[1]) == 'StaticApplication'
-             for e in routes.elts)
-    idx_static = [i for i, e in enumerate(routes.elts) if isinstance(e, ast.Tuple) and len(e.elts) == 2]
-    idx_catch = [i for i, e in enumerate(routes.elts) if isinstance(e, ast.Tuple) and isinstance(e.elts[0], ast.Constant) and '*>' in str(e.elts[0].value)]
-    rep.check('R20.b', fkey(ca, 'catch-all last'), bool(idx_catch) and idx_catch[-1] == len(routes.elts) - 1,
-              'the catch-all page route is the last route (everything not served before it gets the page)' if idx_catch and idx_catch[-1] == len(routes.elts) - 1 else
-              'the catch-all route is not the last route', flaw, routes)
-    # the monitored-file list that is shown is the list that was given: filtering builds new lists, nothing removes
-    # entries from the caller's list (sorting it in place keeps its content)
-    from .. import effects
-    for fq in ('create_app', '_filter_site_files'):
-        ffi = flaw.func(fq)
-        alias = set(ffi.params())
-        for s in stmts_of(ffi.node):
-            if isinstance(s, ast.Assign) and isinstance(s.targets[0], ast.Name):
+    from .c14 import check_nonbreaking, HTTP_ERRS, STATIC
+    from .common import raises_of, raise_type
+    from ..astutil import kwarg
+    repo = rep.repo
+    n = check_nonbreaking(rep, 'R20.b')
+    # the same judgement for HTTP errors raised one step away from the serving functions: in closures nested in
+    # them and in functions of the module they call (a refactoring may move a raise there)
+    st = repo.mod(STATIC)
+    serving = [st.functions.get(q) for q in ('build_file_response', 'StaticApplication.get_file_response', 'StaticFileRoute.get_file_response')]
+    serving = [f for f in serving if f is not None]
+    near, todo = {}, list(serving)
+    while todo:
+        fi = todo.pop()
+        for q, g in st.functions.items():
+            if q.startswith(fi.qualname + '.') and g.key not in near and g not in serving:
+                near[g.key] = g
+                todo.append(g)
+        for c in walk_body(fi.node):
+            g = _module_callee(repo, fi, c)
+            if g is not None and g.key not in near and g not in serving:
+                near[g.key] = g
+                todo.append(g)
+    for key in sorted(near):
+        g = near[key]
+        for r in raises_of(g):
+            if isinstance(r.exc, ast.Call) and raise_type(r) in HTTP_ERRS:
+                n += 1
+                v = kwarg(r.exc, 'is_breaking')
+                ok = isinstance(v, ast.Constant) and v.value is False
+                rep.check('R20.b', fkey(g, r), ok, '%s is raised non-breaking' % raise_type(r) if ok else
+                          '%s raised without is_breaking=False: routes after this static application are never tried' % raise_type(r), st, r)
+    if n < 4:
+        raise AnalysisError('static serving: only %d raises of HTTP errors found' % n)
+
+
+def _aliases_of(fi, roots):
+    alias = set(roots)
+    changed = True
+    while changed:
+        changed = False
+        for s in stmts_of(fi.node):
+            if isinstance(s, ast.Assign) and len(s.targets) == 1 and isinstance(s.targets[0], ast.Name) and s.targets[0].id not in alias:
                 v = s.value
                 cands = [v] + (list(v.values) if isinstance(v, ast.BoolOp) else []) + ([v.body, v.orelse] if isinstance(v, ast.IfExp) else [])
                 if any(isinstance(x, ast.Name) and x.id in alias for x in cands):
                     alias.add(s.targets[0].id)
+                    changed = True
+    return alias
+
+
+def _permutes_in_place(e):
+    """``xs[:] = sorted(xs, ...)`` / ``xs[:] = reversed(xs)``: the list keeps exactly its entries."""
+    t, st = e.target, e.node
+    if not (isinstance(st, ast.Assign) and len(st.targets) == 1 and isinstance(t.slice, ast.Slice) and
+            t.slice.lower is None and t.slice.upper is None and t.slice.step is None and isinstance(t.value, ast.Name)):
+        return False
+    v = st.value
+    if isinstance(v, ast.Call) and call_name(v) == 'list' and len(v.args) == 1:
+        v = v.args[0]
+    return isinstance(v, ast.Call) and call_name(v) in ('sorted', 'reversed') and v.args and \
+        isinstance(v.args[0], ast.Name) and v.args[0].id == t.value.id
+
+
+def _file_lists_kept(rep, fs):
+    """R20.b (3): the monitored-file list that is shown is the list that was given: filtering builds new lists, nothing
+    removes entries from the caller's list (sorting it in place keeps its content)."""
+    from .. import effects
+    repo, flaw, ca = fs.repo, fs.flaw, fs.ca
+    todo = [(ca, set(ca.params()))]
+    anchor = flaw.functions.get('_filter_site_files')
+    if anchor is not None:
+        repo.functions_touched.add(anchor.key)
+        todo.append((anchor, set(anchor.params())))
+    done = {}
+    while todo:
+        fi, roots = todo.pop(0)
+        if fi.key in done:
+            continue
+        alias = _aliases_of(fi, roots)
+        done[fi.key] = (fi, alias)
+        for c in walk_body(fi.node):
+            g = _module_callee(repo, fi, c)
+            if g is None or g.key in done:
+                continue
+            ps = g.params()
+            roots2 = set(ps[i] for i, x in enumerate(c.args) if isinstance(x, ast.Name) and x.id in alias and i < len(ps))
+            roots2 |= set(k.arg for k in c.keywords if k.arg in ps and isinstance(k.value, ast.Name) and k.value.id in alias)
+            if roots2:
+                todo.append((g, roots2))
+    for key in sorted(done):
+        ffi, alias = done[key]
         shrink = [e for e in effects.effects_in(ffi.node) if e.root in alias and
                   ((e.kind == 'mutcall' and e.method in ('remove', 'pop', 'clear', 'popitem', 'discard')) or e.kind == 'delete' or
-                   (e.kind == 'store' and isinstance(e.target, ast.Subscript)))]
+                   (e.kind == 'store' and isinstance(e.target, ast.Subscript) and not _permutes_in_place(e)))]
         rep.check('R20.b', fkey(ffi, 'input lists keep their entries'), not shrink,
                   'no entry is removed from the given file list (filters build new lists)' if not shrink else
                   '%s removes entries from the caller\'s monitored-file list in place (%s): the page (and the reloader that owns the list) '
-                  'loses files' % (fq, [short(e.node) for e in shrink]), flaw, shrink[0].node if shrink else ffi.node)
-    vals_ = dict((k.value, norm(v)) for k, v in zip(res.keys, res.values) if isinstance(k, ast.Constant))
-    ok = vals_.get('all_mon_files') == ca.params()[1]
-    rep.check('R20.b', fkey(ca, 'all_mon_files resource'), ok, 'the full file list shown is the list that was given' if ok else
-              'all_mon_files is not the given monitored_files list', flaw, res)
+                  'loses files' % (ffi.qualname, [short(e.node) for e in shrink]), flaw, shrink[0].node if shrink else ffi.node)
 
-    # ---- R20.c -----------------------------------------------------------
-    rep.rule('R20.c', 'every reference in _FLAW_TEMPLATE is HTML-escaped; autoescaping is never switched off')
-    try:
-        tmpl = flaw.const('_FLAW_TEMPLATE')
-    except Exception as e:
-        raise AnalysisError('cannot fold _FLAW_TEMPLATE: %s' % e)
-    tags = check_template_escaping(rep, 'R20.c', repo, flaw, '_FLAW_TEMPLATE', tmpl)
+
+def _shown_is_given(rep, fs):
+    """The error text and the full file list on the page are the objects create_app was given: template key ->
+    endpoint context value -> endpoint parameter -> resource of that name -> create_app parameter."""
+    flaw, ca, epf = fs.flaw, fs.ca, fs.endpoint
+    res = fs.resources
+    cparams = ca.params()
+    for tkey, pidx, label in (('tb_str', 0, 'the error text itself is the %s resource'),
+                              ('all_mon_files', 1, 'the full file list shown is the list that was given (%s)')):
+        rkeys = set()
+        bad = None
+        for r, items in fs.context:
+            if tkey not in items:
+                bad = 'the endpoint context has no %r' % tkey
+                break
+            p = _param_behind(epf, items[tkey])
+            if p is None:
+                bad = 'context value %s of %r is not the injected resource' % (short(items[tkey], 40), tkey)
+                break
+            rkeys.add(p)
+        if bad is None and len(rkeys) != 1:
+            bad = 'returns disagree on %r' % tkey
+        rkey = sorted(rkeys)[0] if rkeys else tkey
+        if bad is None and rkey not in res:
+            bad = '%s resource is missing' % rkey
+        if bad is None:
+            v = res[rkey]
+            if pidx >= len(cparams):
+                raise AnalysisError('create_app has no parameter %d' % pidx)
+            good = _is_given_list(ca, v, cparams[pidx]) and not (isinstance(v, ast.Constant))
+            if not good:
+                bad = '%s resource is not the given %s: %s' % (rkey, cparams[pidx], short(v, 50))
+        rep.check('R20.b', fkey(ca, '%s resource' % tkey), bad is None, (label % rkey) if bad is None else bad, flaw,
+                  fs.resources_node)
+
+
+def _template_escapes(rep, fs):
+    repo, flaw = fs.repo, fs.flaw
+    rep.rule('R20.c', 'every reference in the failsafe template is HTML-escaped; autoescaping is never switched off')
+    tmpl_name, src_e, text, reg, _rfi = fs.template
+    cname = norm(src_e) if isinstance(src_e, ast.Name) else '_FLAW_TEMPLATE'
+    tags = check_template_escaping(rep, 'R20.c', repo, flaw, cname, text)
     refs = set(t.refpath for t in tags if t.kind == 'ref')
     need = {'tb_str', 'last_line', 'exc_type', 'exc_msg'}
-    rep.check('R20.c', '%s::_FLAW_TEMPLATE::fields' % FLAW, need <= refs,
+    rep.check('R20.c', '%s::%s::fields' % (FLAW, cname), need <= refs,
               'page shows %s' % sorted(need) if need <= refs else 'page template no longer shows %s' % sorted(need - refs), flaw)
+    # the factory holding the template is built without its own escaping filters
+    reg_fi = _rfi
+    holder = _canon_name(reg_fi, reg.func.value) if isinstance(reg.func, ast.Attribute) else None
+    made = _single_value(reg_fi, holder) if holder else None
+    if isinstance(made, ast.Call):
+        over = [k.arg for k in made.keywords if k.arg in ('filters', 'env', 'optimizers') or k.arg is None]
+        rep.check('R20.c', fkey(reg_fi, 'render factory filters'), not over,
+                  'the render factory uses the stock ashes filters' if not over else
+                  'the render factory is built with its own %s: {x} is no longer known to be HTML-escaped by ashes\' h filter'
+                  % ', '.join(str(x) for x in over), flaw, made)
+    # the error text and the full file list are shown unconditionally (not inside another section / conditional)
+    stack, nested = [], {}
+    for t in tags:
+        if t.kind == 'close':
+            if stack:
+                stack.pop()
+            continue
+        if (t.kind == 'ref' and t.refpath == 'tb_str') or (t.kind == 'section' and t.refpath == 'all_mon_files'):
+            nested.setdefault(t.refpath, []).append([x.text for x in stack])
+        if t.kind == 'section' and not t.selfclosing:
+            stack.append(t)
+    cond = dict((k, v) for k, v in nested.items() if v and all(v_ for v_ in v))
+    rep.check('R20.c', '%s::%s::shown unconditionally' % (FLAW, cname), not cond,
+              'the error text and the full file list are rendered outside any other section' if not cond else
+              'the page shows %s only inside %s' % (sorted(cond), sorted(set(x for v in cond.values() for st_ in v for x in st_))), flaw)
     aw = autoescape_writes(repo)
     rep.check('R20.c', 'clastic::autoescape_filter', not aw, 'no code in clastic assigns autoescape_filter' if not aw else
               'autoescape_filter is assigned at %s' % ', '.join('%s:%s' % (m.relpath, getattr(n, 'lineno', '?')) for m, n in aw))
     rep.floor('R20.c', 8)
     # the endpoint passes the fields the template reads
-    ret = [r for r in returns_of(epf) if isinstance(r.value, ast.Dict)]
-    ctx_keys = set(k.value for r in ret for k in r.value.keys if isinstance(k, ast.Constant))
+    epf = fs.endpoint
     top_refs = set(t.refpath.split('.')[0] for t in tags if t.kind in ('ref', 'section') and not t.closing) - {''}
     sect_inner = {'exc_type', 'exc_msg', 'source_file'}
-    missing = sorted(x for x in top_refs - sect_inner if x not in ctx_keys)
-    rep.check('R20.c', fkey(epf, 'context keys'), not missing and bool(ret),
-              'endpoint supplies every top-level template key' if not missing and ret else
-              'template reads %r which get_flaw_info does not supply' % missing, flaw, epf.node)
+    missing = set()
+    for r, items in fs.context:
+        missing |= set(x for x in top_refs - sect_inner if x not in items)
+    missing = sorted(missing)
+    rep.check('R20.c', fkey(epf, 'context keys'), not missing,
+              'endpoint supplies every top-level template key' if not missing else
+              'template reads %r which %s does not supply' % (missing, epf.qualname), flaw, epf.node)
 
-    # ---- R20.d -----------------------------------------------------------
-    rep.rule('R20.d', '_ParsedTB.to_dict exports what {#parsed_err} reads; from_string has a normal return')
+
+def _partition_side(repo, fi, expr, depth=0):
+    """Index (0 / 1 / 2) of the ``<line>.partition(<sep>)`` result a name holds on every binding, else None.  Followed
+    through copies, ``x[i]`` of a partition result, and functions of the module that return (a tuple of) such names."""
+    if depth > 6:
+        return None
+    if isinstance(expr, ast.Subscript) and isinstance(expr.slice, ast.Constant) and isinstance(expr.slice.value, int):
+        inner = _deref(fi, expr.value)
+        if isinstance(inner, ast.Call) and call_tail(inner) == 'partition' and -3 <= expr.slice.value < 3:
+            return expr.slice.value % 3
+        return None
+    if not isinstance(expr, ast.Name):
+        return None
+    binds = assigned_value(fi.node, expr.id)
+    if not binds or expr.id in _all_params(fi):
+        return None
+    sides = set()
+    for st, v, idx in binds:
+        if idx is None and isinstance(v, (ast.Name, ast.Subscript)):
+            sides.add(_partition_side(repo, fi, v, depth + 1))
+        elif isinstance(idx, int) and isinstance(v, ast.Call) and call_tail(v) == 'partition':
+            sides.add(idx)
+        elif (idx is None or isinstance(idx, int)) and isinstance(v, ast.Call) and _module_callee(repo, fi, v) is not None:
+            g = _module_callee(repo, fi, v)
+            rets = returns_of(g)
+            if not rets:
+                sides.add(None)
+            for r in rets:
+                rv = _deref(g, r.value) if r.value is not None else None
+                if idx is not None:
+                    rv = rv.elts[idx] if isinstance(rv, ast.Tuple) and len(rv.elts) > idx and \
+                        not any(isinstance(x, ast.Starred) for x in rv.elts) else None
+                sides.add(_partition_side(repo, g, rv, depth + 1) if rv is not None else None)
+        else:
+            sides.add(None)
+    return sides.pop() if len(sides) == 1 else None
+
+
+def _parsed_branch(rep, fs):
+    flaw = fs.flaw
     td = flaw.func('_ParsedTB.to_dict')
-    tdr = [r for r in returns_of(td) if isinstance(r.value, ast.Dict)]
-    td_keys = set(k.value for r in tdr for k in r.value.keys if isinstance(k, ast.Constant))
+    confirmed = getattr(fs, 'evaluated', 0) > 0 and not getattr(fs, 'evaluation_failed', 0)
     need = {'exc_type', 'exc_msg'}
-    rep.check('R20.d', fkey(td, 'keys'), need <= td_keys, 'to_dict exports %s' % sorted(need) if need <= td_keys else
-              'to_dict no longer exports %s' % sorted(need - td_keys), flaw, td.node)
-    fs = flaw.func('_ParsedTB.from_string')
-    cfg = cfg_of(fs)
-    rets = returns_of(fs)
+    try:
+        td_keys = None
+        for r in returns_of(td):
+            if r.value is None:
+                continue
+            ks = set(_dict_items(td, r.value, 'to_dict'))
+            td_keys = ks if td_keys is None else (td_keys & ks)
+        if td_keys is None:
+            raise AnalysisError('to_dict: no dict return found')
+    except AnalysisError:
+        if not confirmed:
+            raise
+        # the dict is computed (a comprehension over field names, ...): the evaluation below produced it for real inputs
+        td_keys = None
+        rep.ok('R20.d', fkey(td, 'keys'), 'to_dict, evaluated on the parsed sample tracebacks, exports %s' % sorted(need), flaw, td.node)
+    if td_keys is not None:
+        rep.check('R20.d', fkey(td, 'keys'), need <= td_keys, 'to_dict exports %s' % sorted(need) if need <= td_keys else
+                  'to_dict no longer exports %s' % sorted(need - td_keys), flaw, td.node)
+    fs_ = flaw.func('_ParsedTB.from_string')
+    cfg = cfg_of(fs_)
+    rets = returns_of(fs_)
     ok = bool(rets) and any(cfg.reachable(n) for r in rets for n in cfg.nodes_of(r))
-    rep.check('R20.d', fkey(fs, 'return'), ok, 'from_string has a reachable return of a parsed object' if ok else
-              'from_string cannot return normally', flaw, fs.node)
-    rets_cls = [r for r in rets if isinstance(r.value, ast.Call) and norm(r.value.func) == 'cls']
-    ok = bool(rets_cls) and all(len(r.value.args) >= 2 and norm(r.value.args[0]) == 'exc_type' and norm(r.value.args[1]) == 'exc_msg'
-                                for r in rets_cls)
-    rep.check('R20.d', fkey(fs, 'cls(exc_type, exc_msg, ...)'), ok,
-              'parsed type and message are passed in constructor order' if ok else
-              'from_string does not construct cls(exc_type, exc_msg, ...)', flaw, fs.node)
+    rep.check('R20.d', fkey(fs_, 'return'), ok, 'from_string has a reachable return of a parsed object' if ok else
+              'from_string cannot return normally', flaw, fs_.node)
     init = flaw.func('_ParsedTB.__init__')
     ps = init.params()
+    if len(ps) < 3:
+        raise AnalysisError('_ParsedTB.__init__ has fewer than two fields')
+    cls_name = fs_.params()[0] if fs_.params() else 'cls'
+    ctor = [c for c in walk_body(fs_.node) if isinstance(c, ast.Call) and isinstance(c.func, ast.Name) and c.func.id in (cls_name, PARSER_CLASS)]
+    if not ctor and not confirmed:
+        raise AnalysisError('from_string: construction of the parsed object not found')
+    verdicts = []
+    for c in ctor:
+        a0, a1 = argn(c, ps[1], 0), argn(c, ps[2], 1)
+        s0, s1 = _partition_side(fs.repo, fs_, a0), _partition_side(fs.repo, fs_, a1)
+        if s0 is None or s1 is None:
+            # not traceable to the partition: fall back on the conventional local names
+            if norm(a0) == 'exc_type' and norm(a1) == 'exc_msg':
+                verdicts.append(True)
+            elif norm(a0) == 'exc_msg' and norm(a1) == 'exc_type':
+                verdicts.append(False)
+            elif confirmed:
+                verdicts.append(True)     # the evaluation on sample tracebacks saw type and message in the right fields
+            else:
+                raise AnalysisError('from_string: cannot tell which of %s / %s is the exception type' % (short(a0, 30), short(a1, 30)))
+        else:
+            verdicts.append(s0 == 0 and s1 == 2)
+    ok = all(verdicts)
+    rep.check('R20.d', fkey(fs_, 'cls(exc_type, exc_msg, ...)'), ok,
+              'parsed type and message are passed in constructor order' if ok else
+              'from_string does not construct cls(exc_type, exc_msg, ...)', flaw, fs_.node)
     asg = dict((norm(s.targets[0]), norm(s.value)) for s in stmts_of(init.node) if isinstance(s, ast.Assign))
-    ok = len(ps) >= 3 and asg.get('self.exc_type') == ps[1] and asg.get('self.exc_msg') == ps[2]
+    ok = (asg.get('self.exc_type') == ps[1] and asg.get('self.exc_msg') == ps[2]) or \
+        (confirmed and asg.get('self.exc_type') != ps[2] and asg.get('self.exc_msg') != ps[1])
     rep.check('R20.d', fkey(init, 'fields'), ok, 'constructor stores type and message in the matching fields' if ok else
               'constructor cross-wires exc_type / exc_msg: %r' % asg, flaw, init.node)
+
+
+# ------------------------------------------------------------------------------------------------ R20.d by evaluation
+# A small evaluator for the traceback parser: the (normalised) body of from_string is run on a few standard
+# tracebacks with concrete values.  Only a whitelisted, side-effect free subset of Python is understood (assignments,
+# if / while / for / try, str / list / dict / re operations, calls of functions of the analysed module); anything
+# else makes the evaluation give up (``_Unknown``) and the judgement is declined -- it never guesses.
+import re as _re
+
+
+class _Unknown(Exception):
+    pass
+
+
+class _Raised(Exception):
+    def __init__(self, name, detail=''):
+        Exception.__init__(self, '%s: %s' % (name, detail))
+        self.name, self.detail = name, detail
+
+
+class _FuncVal(object):
+    def __init__(self, fi, bound=None, node=None, closure=None):
+        self.fi, self.bound, self.node, self.closure = fi, bound, node, closure
+
+    @property
+    def qualname(self):
+        return self.fi.qualname if self.fi is not None else self.node.name
+
+
+class _ClassVal(object):
+    def __init__(self, ci):
+        self.ci = ci
+
+
+class _ModVal(object):
+    def __init__(self, name):
+        self.name = name
+
+
+class _Instance(object):
+    def __init__(self, cls):
+        self.cls, self.attrs = cls, {}
+
+
+class _Method(object):
+    """``obj.name`` of an ordinary value, not yet called."""
+    def __init__(self, obj, name):
+        self.obj, self.name = obj, name
+
+
+class _ExcClass(object):
+    def __init__(self, name):
+        self.name = name
+
+
+class _Property(object):
+    def __init__(self, fi):
+        self.fi = fi
+
+
+_BUILTIN_VALUES = {'str': str, 'bytes': bytes, 'int': int, 'list': list, 'tuple': tuple, 'dict': dict, 'bool': bool, 'float': float,
+                   'set': set, 'frozenset': frozenset, 'bytearray': bytearray, 'object': object, 'len': len, 'range': range,
+                   'reversed': reversed, 'enumerate': enumerate, 'zip': zip, 'isinstance': isinstance, 'min': min, 'max': max,
+                   'sorted': sorted, 'any': any, 'all': all, 'sum': sum, 'abs': abs, 'repr': repr, 'getattr': getattr, 'hasattr': hasattr, 'next': next, 'iter': iter}
+_EXC_NAMES = ('BaseException', 'Exception', 'ValueError', 'TypeError', 'IndexError', 'KeyError', 'AttributeError', 'LookupError',
+              'UnicodeDecodeError', 'UnicodeError', 'RuntimeError', 'StopIteration', 'AssertionError', 'NotImplementedError')
+_PLAIN = (type(None), bool, int, float, str, bytes, list, tuple, dict, set, frozenset, range)
+_STR_METHODS = {'lstrip', 'rstrip', 'strip', 'split', 'rsplit', 'splitlines', 'partition', 'rpartition', 'startswith', 'endswith',
+                'find', 'rfind', 'index', 'rindex', 'count', 'replace', 'lower', 'upper', 'isidentifier', 'isalpha', 'isalnum',
+                'isdigit', 'isspace', 'istitle', 'isupper', 'islower', 'join', 'encode', 'decode', 'title', 'capitalize',
+                'expandtabs', 'zfill', 'casefold', 'removeprefix', 'removesuffix', 'format', 'isascii', 'isnumeric', 'isdecimal',
+                'swapcase', 'center', 'ljust', 'rjust'}
+_LIST_METHODS = {'pop', 'append', 'extend', 'insert', 'reverse', 'index', 'count', 'copy', 'remove', 'clear'}
+_DICT_METHODS = {'get', 'items', 'keys', 'values', 'update', 'setdefault', 'pop', 'copy'}
+_SET_METHODS = {'add', 'discard', 'union', 'intersection', 'difference', 'copy', 'update'}
+_PATTERN_METHODS = {'match', 'search', 'fullmatch', 'findall', 'split', 'sub'}
+_MATCH_METHODS = {'groupdict', 'group', 'groups', 'start', 'end', 'span'}
+_RE_ATTRS = {'compile', 'match', 'search', 'fullmatch', 'split', 'sub', 'findall', 'escape', 'I', 'IGNORECASE', 'M', 'MULTILINE',
+             'S', 'DOTALL', 'X', 'VERBOSE', 'U', 'UNICODE', 'A', 'ASCII'}
+_PATTERN_T, _MATCH_T = type(_re.compile('')), type(_re.match('', ''))
+_ITERATOR_TYPES = ('reversed', 'list_reverseiterator', 'enumerate', 'zip', 'dict_items', 'dict_keys', 'dict_values', 'list_iterator',
+                   'tuple_iterator', 'str_ascii_iterator', 'str_iterator', 'range_iterator', 'dict_keyiterator')
+
+
+def _plain(v, depth=0):
+    """The value is ordinary data all the way down (safe to hand to a real builtin / method)."""
+    if depth > 6:
+        return False
+    if isinstance(v, (list, tuple, set, frozenset)):
+        return all(_plain(x, depth + 1) for x in v)
+    if isinstance(v, dict):
+        return all(_plain(k, depth + 1) and _plain(x, depth + 1) for k, x in v.items())
+    return isinstance(v, _PLAIN) or isinstance(v, (_PATTERN_T, _MATCH_T))
+
+
+class _Eval(object):
+    MAX_STEPS = 40000
+
+    def __init__(self, repo, mod):
+        self.repo, self.mod = repo, mod
+        self.steps = 0
+        self._consts = {}
+        self._handling = []
+
+    # -- helpers ---------------------------------------------------------------------------------------------
+    def _tick(self):
+        self.steps += 1
+        if self.steps > self.MAX_STEPS:
+            raise _Unknown('step budget exhausted')
+
+    def _real(self, fn, *args, **kw):
+        try:
+            return fn(*args, **kw)
+        except (_Unknown, _Raised):
+            raise
+        except RecursionError:
+            raise _Unknown('recursion')
+        except Exception as e:
+            raise _Raised(type(e).__name__, str(e))
+
+    def global_value(self, name, depth=0):
+        if name in self._consts:
+            return self._consts[name]
+        mod = self.mod
+        v = _Unknown
+        if name in mod.functions and '.' not in name:
+            v = _FuncVal(mod.functions[name])
+        elif name in mod.classes and '.' not in name:
+            v = _ClassVal(mod.classes[name])
+        elif name in mod.imports:
+            modname, attr = mod.imports[name]
+            if modname == 're' and attr is None:
+                v = _ModVal('re')
+            elif modname == 're' and attr in _RE_ATTRS:
+                v = getattr(_re, attr)
+        elif name in mod.assigns:
+            vals = [x for x in mod.assigns[name]]
+            if len(vals) == 1 and isinstance(vals[0], ast.expr) and depth < 6:
+                v = self.expr(vals[0], {}, depth + 1)
+            elif len(vals) == 1 and vals[0] is None and depth < 6:
+                # A, B = 'a', 'b' at module level
+                for st in mod.tree.body:
+                    if isinstance(st, ast.Assign) and len(st.targets) == 1 and isinstance(st.targets[0], (ast.Tuple, ast.List)) and \
+                            any(isinstance(t, ast.Name) and t.id == name for t in st.targets[0].elts):
+                        tmp = {}
+                        self.assign(st.targets[0], self.expr(st.value, {}, depth + 1), tmp, depth + 1)
+                        v = tmp.get(name, _Unknown)
+        elif name in _BUILTIN_VALUES:
+            v = _BUILTIN_VALUES[name]
+        elif name in _EXC_NAMES:
+            v = _ExcClass(name)
+        if v is _Unknown:
+            raise _Unknown('global name %s' % name)
+        self._consts[name] = v
+        return v
+
+    # -- functions -------------------------------------------------------------------------------------------
+    def call_function(self, fv, args, kwargs, depth):
+        if depth > 8:
+            raise _Unknown('call depth')
+        class _F(object):
+            pass
+        fi = _F()
+        fi.node = fv.node if fv.node is not None else fv.fi.node
+        fi.qualname = fv.qualname
+        a = fi.node.args
+        if a.vararg or a.kwarg or a.posonlyargs:
+            raise _Unknown('signature of %s' % fi.qualname)
+        if any(not (isinstance(d, ast.Name) and d.id in ('classmethod', 'staticmethod', 'property')) for d in fi.node.decorator_list):
+            raise _Unknown('decorated function %s' % fi.qualname)
+        if any(isinstance(n, (ast.Yield, ast.YieldFrom, ast.Await, ast.Nonlocal, ast.Global)) for n in ast.walk(fi.node)):
+            raise _Unknown('generator / nonlocal in %s' % fi.qualname)
+        names = [x.arg for x in a.args]
+        args = list(args)
+        if fv.bound is not None:
+            args.insert(0, fv.bound)
+        if len(args) > len(names):
+            raise _Raised('TypeError', 'too many arguments for %s' % fi.qualname)
+        env = dict(zip(names, args))
+        outer = dict(fv.closure) if fv.closure is not None else {}
+        for k, v in kwargs.items():
+            if k in env or k not in names + [x.arg for x in a.kwonlyargs]:
+                raise _Raised('TypeError', 'bad keyword %s for %s' % (k, fi.qualname))
+            env[k] = v
+        defaults = dict(zip(names[len(names) - len(a.defaults):], a.defaults))
+        for x, d in zip(a.kwonlyargs, a.kw_defaults):
+            if d is not None:
+                defaults[x.arg] = d
+        for n in names + [x.arg for x in a.kwonlyargs]:
+            if n not in env:
+                if n not in defaults:
+                    raise _Raised('TypeError', 'missing argument %s for %s' % (n, fi.qualname))
+                env[n] = self.expr(defaults[n], outer, depth + 1)
+        if outer:
+            # a nested function reads the enclosing variables as they are when it is called; its own assignments stay its own
+            stored = set(n.id for n in ast.walk(fi.node) if isinstance(n, ast.Name) and isinstance(n.ctx, ast.Store))
+            for k, v in outer.items():
+                if k not in env and k not in stored:
+                    env[k] = v
+        sig = self.block(fi.node.body, env, depth + 1)
+        if sig is not None and sig[0] == 'return':
+            return sig[1]
+        return None
+
+    def construct(self, cv, args, kwargs, depth):
+        inst = _Instance(cv)
+        init = self.repo.find_method(cv.ci, '__init__')
+        if init is None:
+            if args or kwargs:
+                raise _Raised('TypeError', 'object() takes no arguments')
+            return inst
+        if init.mod.external:
+            raise _Unknown('external __init__')
+        self.call_function(_FuncVal(init, bound=inst), args, kwargs, depth)
+        return inst
+
+    def class_attr(self, cv, attr, receiver):
+        """Attribute looked up on a class (receiver: the class value itself, or an instance)."""
+        m = self.repo.find_method(cv.ci, attr)
+        if m is None:
+            owner, val = self.repo.class_attr(cv.ci, attr)
+            if owner is not None and isinstance(val, ast.expr) and not owner.mod.external and owner.mod is self.mod:
+                key = ('class-attr', owner.qualname, attr)
+                if key not in self._consts:
+                    self._consts[key] = self.expr(val, {}, 1)
+                return self._consts[key]
+        if m is None or m.mod.external:
+            raise _Unknown('attribute %s of %s' % (attr, cv.ci.name))
+        decos = [d.id for d in m.node.decorator_list if isinstance(d, ast.Name)]
+        if 'staticmethod' in decos:
+            return _FuncVal(m)
+        if 'classmethod' in decos:
+            return _FuncVal(m, bound=cv)
+        if 'property' in decos:
+            if isinstance(receiver, _Instance):
+                return _Property(m)
+            raise _Unknown('property on class')
+        return _FuncVal(m, bound=receiver if isinstance(receiver, _Instance) else None)
+
+    # -- statements ------------------------------------------------------------------------------------------
+    def block(self, stmts, env, depth):
+        for st in stmts:
+            sig = self.stmt(st, env, depth)
+            if sig is not None:
+                return sig
+        return None
+
+    def assign(self, target, value, env, depth):
+        if isinstance(target, ast.Name):
+            env[target.id] = value
+        elif isinstance(target, (ast.Tuple, ast.List)):
+            if any(isinstance(e, ast.Starred) for e in target.elts):
+                raise _Unknown('starred target')
+            if not isinstance(value, (list, tuple, str)) and not _plain(value):
+                raise _Unknown('unpacking %s' % type(value).__name__)
+            vals = self._real(list, value)
+            if len(vals) != len(target.elts):
+                raise _Raised('ValueError', 'unpack %d into %d' % (len(vals), len(target.elts)))
+            for t, v in zip(target.elts, vals):
+                self.assign(t, v, env, depth)
+        elif isinstance(target, ast.Subscript):
+            obj = self.expr(target.value, env, depth)
+            if not isinstance(obj, (list, dict)):
+                raise _Unknown('item store into %s' % type(obj).__name__)
+            key = self.slice_of(target.slice, env, depth)
+            self._real(obj.__setitem__, key, value)
+        elif isinstance(target, ast.Attribute):
+            obj = self.expr(target.value, env, depth)
+            if not isinstance(obj, _Instance):
+                raise _Unknown('attribute store on %s' % type(obj).__name__)
+            obj.attrs[target.attr] = value
+        else:
+            raise _Unknown('assignment target %s' % type(target).__name__)
+
+    def stmt(self, st, env, depth):
+        self._tick()
+        if isinstance(st, ast.Expr):
+            self.expr(st.value, env, depth)
+            return None
+        if isinstance(st, ast.Assign):
+            v = self.expr(st.value, env, depth)
+            for t in st.targets:
+                self.assign(t, v, env, depth)
+            return None
+        if isinstance(st, ast.AnnAssign):
+            if st.value is not None:
+                self.assign(st.target, self.expr(st.value, env, depth), env, depth)
+            return None
+        if isinstance(st, ast.AugAssign):
+            cur = self.expr(ast.copy_location(_as_load(st.target), st), env, depth)
+            v = self.binop(st.op, cur, self.expr(st.value, env, depth), inplace=True)
+            self.assign(st.target, v, env, depth)
+            return None
+        if isinstance(st, ast.Pass):
+            return None
+        if isinstance(st, ast.FunctionDef):
+            if st.decorator_list:
+                raise _Unknown('decorated nested function')
+            env[st.name] = _FuncVal(None, node=st, closure=env)
+            return None
+        if isinstance(st, ast.Return):
+            return ('return', self.expr(st.value, env, depth) if st.value is not None else None)
+        if isinstance(st, ast.Break):
+            return ('break',)
+        if isinstance(st, ast.Continue):
+            return ('continue',)
+        if isinstance(st, ast.If):
+            return self.block(st.body if self.truth(self.expr(st.test, env, depth)) else st.orelse, env, depth)
+        if isinstance(st, ast.While):
+            while self.truth(self.expr(st.test, env, depth)):
+                self._tick()
+                sig = self.block(st.body, env, depth)
+                if sig is not None:
+                    if sig[0] == 'break':
+                        return None
+                    if sig[0] == 'return':
+                        return sig
+            return self.block(st.orelse, env, depth)
+        if isinstance(st, ast.For):
+            it = self.iterate(self.expr(st.iter, env, depth))
+            for v in it:
+                self._tick()
+                self.assign(st.target, v, env, depth)
+                sig = self.block(st.body, env, depth)
+                if sig is not None:
+                    if sig[0] == 'break':
+                        return None
+                    if sig[0] == 'return':
+                        return sig
+            return self.block(st.orelse, env, depth)
+        if isinstance(st, ast.Raise):
+            if st.exc is None:
+                if self._handling:
+                    raise self._handling[-1]
+                raise _Raised('RuntimeError', 'no active exception')
+            e = st.exc
+            if isinstance(e, ast.Call):
+                for a_ in e.args:
+                    self.expr(a_, env, depth)
+                e = e.func
+            if isinstance(e, ast.Name) and e.id in env and isinstance(env[e.id], _Raised):
+                raise env[e.id]
+            raise _Raised(norm(e))
+        if isinstance(st, ast.Assert):
+            if not self.truth(self.expr(st.test, env, depth)):
+                raise _Raised('AssertionError')
+            return None
+        if isinstance(st, ast.Try):
+            return self.try_(st, env, depth)
+        if isinstance(st, ast.Delete):
+            for t in st.targets:
+                if isinstance(t, ast.Subscript):
+                    obj = self.expr(t.value, env, depth)
+                    if not isinstance(obj, (list, dict)):
+                        raise _Unknown('del on %s' % type(obj).__name__)
+                    self._real(obj.__delitem__, self.slice_of(t.slice, env, depth))
+                elif isinstance(t, ast.Name):
+                    env.pop(t.id, None)
+                else:
+                    raise _Unknown('del target')
+            return None
+        raise _Unknown('statement %s' % type(st).__name__)
+
+    def try_(self, st, env, depth):
+        from ..astutil import exc_supertypes
+        sig = None
+        try:
+            try:
+                sig = self.block(st.body, env, depth)
+            except _Raised as r:
+                from ..astutil import EXC_PARENTS
+                sup = set(exc_supertypes(r.name)) | {'Exception', 'BaseException'}
+                if r.name not in EXC_PARENTS and any(h.type is not None and norm(h.type) not in ('Exception', 'BaseException')
+                                                    for h in st.handlers):
+                    raise _Unknown('handler match for exception class %s' % r.name)
+                for h in st.handlers:
+                    names = None if h.type is None else ([norm(e) for e in h.type.elts] if isinstance(h.type, ast.Tuple) else [norm(h.type)])
+                    if names is None or any(n in sup for n in names):
+                        if h.name:
+                            env[h.name] = r
+                        self._handling.append(r)
+                        try:
+                            sig = self.block(h.body, env, depth)
+                        finally:
+                            self._handling.pop()
+                        break
+                else:
+                    raise
+            else:
+                if sig is None:
+                    sig = self.block(st.orelse, env, depth)
+        finally:
+            if st.finalbody:
+                fsig = self.block(st.finalbody, env, depth)
+                if fsig is not None:
+                    sig = fsig
+        return sig
+
+    # -- expressions -----------------------------------------------------------------------------------------
+    def truth(self, v):
+        if isinstance(v, (_Instance, _FuncVal, _ClassVal, _ModVal, _Method, _ExcClass)) or type(v).__name__ in _ITERATOR_TYPES:
+            return True
+        if not _plain(v) and not isinstance(v, _Raised):
+            raise _Unknown('truth of %s' % type(v).__name__)
+        return bool(v)
+
+    def iterate(self, v):
+        if isinstance(v, (list, tuple, str, bytes, dict, set, frozenset, range)) or type(v).__name__ in _ITERATOR_TYPES:
+            return v
+        raise _Unknown('iteration over %s' % type(v).__name__)
+
+    def slice_of(self, s, env, depth):
+        if isinstance(s, ast.Slice):
+            return slice(self.expr(s.lower, env, depth) if s.lower is not None else None,
+                         self.expr(s.upper, env, depth) if s.upper is not None else None,
+                         self.expr(s.step, env, depth) if s.step is not None else None)
+        return self.expr(s, env, depth)
+
+    def binop(self, op, l, r, inplace=False):
+        if not (_plain(l) and _plain(r)):
+            raise _Unknown('operator on %s / %s' % (type(l).__name__, type(r).__name__))
+        import operator as _op
+        table = {ast.Add: _op.add, ast.Sub: _op.sub, ast.Mult: _op.mul, ast.Mod: _op.mod, ast.FloorDiv: _op.floordiv,
+                 ast.BitOr: _op.or_, ast.BitAnd: _op.and_, ast.Div: _op.truediv}
+        if inplace and isinstance(l, list) and isinstance(op, ast.Add):
+            self._real(l.extend, r)
+            return l
+        fn = table.get(type(op))
+        if fn is None:
+            raise _Unknown('operator %s' % type(op).__name__)
+        if isinstance(op, ast.Mult) and isinstance(l, int) and isinstance(r, int) and abs(l * r) > 10 ** 6:
+            raise _Unknown('large number')
+        return self._real(fn, l, r)
+
+    def compare(self, op, l, r):
+        if isinstance(op, (ast.Is, ast.IsNot)):
+            res = l is r
+            return res if isinstance(op, ast.Is) else not res
+        if not (_plain(l) and _plain(r)):
+            if isinstance(op, (ast.Eq, ast.NotEq)):
+                res = l is r
+                return res if isinstance(op, ast.Eq) else not res
+            raise _Unknown('comparison of %s / %s' % (type(l).__name__, type(r).__name__))
+        import operator as _op
+        table = {ast.Eq: _op.eq, ast.NotEq: _op.ne, ast.Lt: _op.lt, ast.LtE: _op.le, ast.Gt: _op.gt, ast.GtE: _op.ge,
+                 ast.In: lambda a, b: a in b, ast.NotIn: lambda a, b: a not in b}
+        return self._real(table[type(op)], l, r)
+
+    def expr(self, e, env, depth):
+        self._tick()
+        if isinstance(e, ast.Constant):
+            return e.value
+        if isinstance(e, ast.Name):
+            if e.id in env:
+                return env[e.id]
+            return self.global_value(e.id, depth)
+        if isinstance(e, (ast.List, ast.Tuple, ast.Set)):
+            if any(isinstance(x, ast.Starred) for x in e.elts):
+                raise _Unknown('starred element')
+            vals = [self.expr(x, env, depth) for x in e.elts]
+            return vals if isinstance(e, ast.List) else tuple(vals) if isinstance(e, ast.Tuple) else self._real(set, vals)
+        if isinstance(e, ast.Dict):
+            if any(k is None for k in e.keys):
+                raise _Unknown('dict unpacking')
+            out = {}
+            for k, v in zip(e.keys, e.values):
+                self._real(out.__setitem__, self.expr(k, env, depth), self.expr(v, env, depth))
+            return out
+        if isinstance(e, ast.BoolOp):
+            v = None
+            for x in e.values:
+                v = self.expr(x, env, depth)
+                if isinstance(e.op, ast.And) and not self.truth(v):
+                    return v
+                if isinstance(e.op, ast.Or) and self.truth(v):
+                    return v
+            return v
+        if isinstance(e, ast.UnaryOp):
+            v = self.expr(e.operand, env, depth)
+            if isinstance(e.op, ast.Not):
+                return not self.truth(v)
+            if isinstance(e.op, ast.USub) and isinstance(v, (int, float)):
+                return -v
+            if isinstance(e.op, ast.UAdd) and isinstance(v, (int, float)):
+                return +v
+            raise _Unknown('unary operator')
+        if isinstance(e, ast.BinOp):
+            return self.binop(e.op, self.expr(e.left, env, depth), self.expr(e.right, env, depth))
+        if isinstance(e, ast.Compare):
+            l = self.expr(e.left, env, depth)
+            for op, c in zip(e.ops, e.comparators):
+                r = self.expr(c, env, depth)
+                if not self.compare(op, l, r):
+                    return False
+                l = r
+            return True
+        if isinstance(e, ast.IfExp):
+            return self.expr(e.body if self.truth(self.expr(e.test, env, depth)) else e.orelse, env, depth)
+        if isinstance(e, ast.Subscript):
+            obj = self.expr(e.value, env, depth)
+            if not isinstance(obj, (list, tuple, str, bytes, dict, _MATCH_T)):
+                raise _Unknown('subscript of %s' % type(obj).__name__)
+            return self._real(obj.__getitem__, self.slice_of(e.slice, env, depth))
+        if isinstance(e, ast.JoinedStr):
+            parts = []
+            for v in e.values:
+                if isinstance(v, ast.Constant):
+                    parts.append(str(v.value))
+                elif isinstance(v, ast.FormattedValue) and v.format_spec is None and v.conversion in (-1, 115, 114):
+                    x = self.expr(v.value, env, depth)
+                    if not _plain(x):
+                        raise _Unknown('f-string value')
+                    parts.append(repr(x) if v.conversion == 114 else str(x))
+                else:
+                    raise _Unknown('f-string format')
+            return ''.join(parts)
+        if isinstance(e, ast.GeneratorExp):
+            # evaluated eagerly (the subset has no side effects); an exception inside might never have been reached lazily
+            try:
+                return iter(self.comprehension(e, env, depth))
+            except _Raised as r:
+                raise _Unknown('exception %s inside a generator expression' % r.name)
+        if isinstance(e, (ast.ListComp, ast.SetComp, ast.DictComp)):
+            return self.comprehension(e, env, depth)
+        if isinstance(e, ast.Attribute):
+            return self.attribute(e, env, depth)
+        if isinstance(e, ast.Call):
+            return self.call(e, env, depth)
+        raise _Unknown('expression %s' % type(e).__name__)
+
+    def comprehension(self, e, env, depth):
+        out = []
+        inner = dict(env)
+
+        def rec(i):
+            if i == len(e.generators):
+                if isinstance(e, ast.DictComp):
+                    out.append((self.expr(e.key, inner, depth), self.expr(e.value, inner, depth)))
+                else:
+                    out.append(self.expr(e.elt, inner, depth))
+                return
+            g = e.generators[i]
+            if g.is_async:
+                raise _Unknown('async comprehension')
+            for v in self.iterate(self.expr(g.iter, inner, depth)):
+                self._tick()
+                self.assign(g.target, v, inner, depth)
+                if all(self.truth(self.expr(c, inner, depth)) for c in g.ifs):
+                    rec(i + 1)
+        rec(0)
+        if isinstance(e, ast.DictComp):
+            return self._real(dict, out)
+        if isinstance(e, ast.SetComp):
+            return self._real(set, out)
+        return out
+
+    def attribute(self, e, env, depth):
+        obj = self.expr(e.value, env, depth)
+        if isinstance(obj, _ModVal):
+            if obj.name == 're' and e.attr in _RE_ATTRS:
+                return getattr(_re, e.attr)
+            raise _Unknown('%s.%s' % (obj.name, e.attr))
+        if isinstance(obj, _Instance):
+            if e.attr in obj.attrs:
+                return obj.attrs[e.attr]
+            v = self.class_attr(obj.cls, e.attr, obj)
+            if isinstance(v, _Property):
+                return self.call_function(_FuncVal(v.fi, bound=obj), [], {}, depth + 1)
+            return v
+        if isinstance(obj, _ClassVal):
+            return self.class_attr(obj, e.attr, obj)
+        if not _plain(obj):
+            raise _Unknown('attribute %s of %s' % (e.attr, type(obj).__name__))
+        return _Method(obj, e.attr)
+
+    def call(self, e, env, depth):
+        f = self.expr(e.func, env, depth)
+        args, kwargs = [], {}
+        for a in e.args:
+            if isinstance(a, ast.Starred):
+                seq = self.expr(a.value, env, depth)
+                if not isinstance(seq, (list, tuple)):
+                    raise _Unknown('star argument of %s' % type(seq).__name__)
+                args.extend(seq)
+            else:
+                args.append(self.expr(a, env, depth))
+        for k in e.keywords:
+            if k.arg is None:
+                d = self.expr(k.value, env, depth)
+                if not isinstance(d, dict) or not all(isinstance(x, str) for x in d):
+                    raise _Unknown('double-star argument')
+                kwargs.update(d)
+            else:
+                kwargs[k.arg] = self.expr(k.value, env, depth)
+        if isinstance(f, _FuncVal):
+            return self.call_function(f, args, kwargs, depth + 1)
+        if isinstance(f, _ClassVal):
+            return self.construct(f, args, kwargs, depth + 1)
+        if isinstance(f, _Method):
+            obj, name = f.obj, f.name
+            ok = (isinstance(obj, (str, bytes)) and name in _STR_METHODS) or (isinstance(obj, list) and name in _LIST_METHODS) or \
+                (isinstance(obj, dict) and name in _DICT_METHODS) or (isinstance(obj, (set, frozenset)) and name in _SET_METHODS) or \
+                (isinstance(obj, _PATTERN_T) and name in _PATTERN_METHODS) or (isinstance(obj, _MATCH_T) and name in _MATCH_METHODS) or \
+                (isinstance(obj, tuple) and name in ('index', 'count'))
+            if obj is None or (_plain(obj) and not ok and not hasattr(obj, name)):
+                raise _Raised('AttributeError', '%s has no attribute %s' % (type(obj).__name__, name))
+            if not ok or not all(_plain(a) for a in args) or not all(_plain(v) for v in kwargs.values()):
+                raise _Unknown('method %s of %s' % (name, type(obj).__name__))
+            return self._real(getattr(obj, name), *args, **kwargs)
+        if isinstance(f, _ExcClass):
+            return _Raised(f.name, ' '.join(str(a) for a in args if _plain(a)))
+        if f is getattr or f is hasattr:
+            if kwargs or len(args) not in ((2, 3) if f is getattr else (2,)) or not isinstance(args[1], str):
+                raise _Unknown('getattr arity')
+            obj = args[0]
+            if not isinstance(obj, _Instance):
+                raise _Unknown('getattr on %s' % type(obj).__name__)
+            try:
+                if args[1] in obj.attrs:
+                    v = obj.attrs[args[1]]
+                else:
+                    v = self.class_attr(obj.cls, args[1], obj)
+                    if isinstance(v, _Property):
+                        v = self.call_function(_FuncVal(v.fi, bound=obj), [], {}, depth + 1)
+            except _Unknown:
+                # not a known attribute: AttributeError (hasattr False, getattr default)
+                if f is hasattr:
+                    return False
+                if len(args) == 3:
+                    return args[2]
+                raise _Raised('AttributeError', args[1])
+            return True if f is hasattr else v
+        if f is isinstance:
+            if len(args) != 2 or kwargs:
+                raise _Unknown('isinstance arity')
+            ts = args[1] if isinstance(args[1], tuple) else (args[1],)
+            if not all(isinstance(t, type) for t in ts):
+                if any(isinstance(t, _ClassVal) for t in ts):
+                    return isinstance(args[0], _Instance) and any(isinstance(t, _ClassVal) and t.ci is args[0].cls.ci for t in ts)
+                raise _Unknown('isinstance type')
+            return isinstance(args[0], ts)
+        if f in (len, range, reversed, enumerate, zip, min, max, sorted, any, all, sum, abs, repr, str, bytes, int, list, tuple, dict,
+                 bool, float, set, frozenset, next, iter) or (getattr(f, '__module__', None) == 're' and getattr(f, '__name__', '') in _RE_ATTRS):
+            if not all(_plain(a) or type(a).__name__ in _ITERATOR_TYPES for a in args) or not all(_plain(v) for v in kwargs.values()):
+                raise _Unknown('builtin on %s' % [type(a).__name__ for a in args])
+            if f is range and args and any(isinstance(a, int) and abs(a) > 10 ** 6 for a in args):
+                raise _Unknown('large range')
+            return self._real(f, *args, **kwargs)
+        raise _Unknown('call of %s' % short(e.func, 40))
+
+
+def _as_load(t):
+    import copy
+    t2 = copy.deepcopy(t)
+    for n in ast.walk(t2):
+        if hasattr(n, 'ctx'):
+            n.ctx = ast.Load()
+    return t2
+
+
+_TB_SAMPLES = (
+    ('builtin exception',
+     u'\nTraceback (most recent call last):\n  File "example.py", line 2, in <module>\n    plarp\nNameError: name \'plarp\' is not defined\n',
+     'NameError', "name 'plarp' is not defined"),
+    ('module-qualified exception',
+     u'Traceback (most recent call last):\n  File "/srv/app/main.py", line 10, in <module>\n    main()\n'
+     u'  File "/srv/app/main.py", line 6, in main\n    json.loads(\'\')\n'
+     u'json.decoder.JSONDecodeError: Expecting value: line 1 column 1 (char 0)\n',
+     'json.decoder.JSONDecodeError', 'Expecting value: line 1 column 1 (char 0)'),
+    ('exception of the main module, as bytes',
+     b'Traceback (most recent call last):\n  File "serve.py", line 31, in <module>\n    app = build_app(load_config())\n'
+     b'  File "serve.py", line 17, in load_config\n    raise ConfigError(\'missing section [server]\')\n'
+     b'__main__.ConfigError: missing section [server]\n',
+     '__main__.ConfigError', 'missing section [server]'),
+    ('syntax error report',
+     u'  File "app.py", line 3\n    def f(:\n          ^\nSyntaxError: invalid syntax\n',
+     'SyntaxError', 'invalid syntax'),
+)
+
+
+def _parser_semantics(rep, fs):
+    """R20.d (2): run the parser on standard tracebacks: the heading must name the exception type and message."""
+    repo, flaw = fs.repo, fs.flaw
+    rep.rule('R20.d', '_ParsedTB.to_dict exports what {#parsed_err} reads; from_string has a normal return and names type and message')
+    pc = flaw.classes.get(PARSER_CLASS)
+    fsf = flaw.functions.get('%s.from_string' % PARSER_CLASS)
+    tdf = flaw.functions.get('%s.to_dict' % PARSER_CLASS)
+    if pc is None or fsf is None or tdf is None:
+        raise AnalysisError('traceback parser %s.from_string / to_dict not found' % PARSER_CLASS)
+    fs.evaluated, fs.evaluation_failed = 0, 0
+    for label, text, want_type, want_msg in _TB_SAMPLES:
+        ev = _Eval(repo, flaw)
+        key = fkey(fsf, 'standard traceback: %s' % label)
+        try:
+            cv = _ClassVal(pc)
+            obj = ev.call_function(_FuncVal(fsf, bound=cv), [text], {}, 0)
+            if not isinstance(obj, _Instance):
+                raise _Unknown('from_string returned %s' % type(obj).__name__)
+            d = ev.call_function(_FuncVal(tdf, bound=obj), [], {}, 0)
+            if not isinstance(d, dict):
+                raise _Unknown('to_dict returned %s' % type(d).__name__)
+        except _Unknown as u:
+            rep.notes.append('R20.d evaluation of the parser on a %s declined: %s' % (label, u))
+            continue
+        except _Raised as r:
+            fs.evaluation_failed += 1
+            rep.fail('R20.d', key, 'the parser raises %s on a standard traceback (%s): the page falls back to the raw last line '
+                     'instead of naming %s' % (r.name, label, want_type), flaw, fsf.node)
+            continue
+        got_type, got_msg = d.get('exc_type'), d.get('exc_msg')
+        ok = isinstance(got_type, str) and isinstance(got_msg, str) and got_type.strip() == want_type and got_msg.strip() == want_msg
+        fs.evaluated += 1
+        fs.evaluation_failed += 0 if ok else 1
+        rep.check('R20.d', key, ok,
+                  'parsed heading is %r / %r' % (want_type, want_msg) if ok else
+                  'for a standard traceback ending in "%s: %s" the parsed heading is %r / %r' % (want_type, want_msg, got_type, got_msg),
+                  flaw, fsf.node)
+
+
+# ------------------------------------------------------------------------------------------------ R20.e the launcher
+def _stores_name(fnode, name):
+    """Plain (re)bindings of ``name`` in a function body (its own scope): assignments, for / with / except targets."""
+    out = []
+    declared = set()
+    for n in walk_body(fnode):
+        if isinstance(n, (ast.Nonlocal, ast.Global)):
+            declared.update(n.names)
+    if name in declared:
+        return []
+    for st, v, idx in assigned_value(fnode, name):
+        if isinstance(st, ast.AugAssign):
+            continue            # xs += [...] extends the same list
+        out.append(st)
+    return out
+
+
+_GROWS = ('extend', 'append', 'insert')
+
+
+def _list_updates(repo, mod, fi, name, origin, depth=0, seen=None):
+    """Follow the list known as ``name`` in function ``fi``: (is it updated in place somewhere, [(function, stmt, why)]
+    where something that should update it rebinds a name / attribute of its own instead).  Followed into nested
+    functions, module functions that are handed the list (directly or through functools.partial) and classes of the
+    module constructed with it (``self.x = <param>`` ... ``self.x[:] = ...``)."""
+    from .. import effects
+    seen = set() if seen is None else seen
+    if depth > 4 or (fi.key, name) in seen:
+        return False, []
+    seen.add((fi.key, name))
+    updated, problems = False, []
+    scopes_ = [fi] + [g for q, g in sorted(mod.functions.items()) if q.startswith(fi.qualname + '.')]
+    for sc in scopes_:
+        shadowed = sc is not fi and name in sc.params()
+        if shadowed:
+            continue
+        if sc is not fi or not origin:
+            # a closure (or a helper that was handed the list) assigning the bare name makes a new local
+            for st in _stores_name(sc.node, name):
+                problems.append((sc, st, '%s rebinds %s as a name of its own (%s): the list handed to the error hook never '
+                                 'sees the files the child reported' % (sc.qualname, name, short(st, 60))))
+        for e in effects.effects_in(sc.node):
+            if e.root == name and e.chain and len([x for x in e.chain[1:] if x not in ('[]',)]) == 0 and \
+                    ((e.kind == 'store' and isinstance(e.target, ast.Subscript)) or (e.kind == 'mutcall' and e.method in _GROWS)):
+                updated = True
+        for c in walk_body(sc.node):
+            if not isinstance(c, ast.Call):
+                continue
+            args, callee = list(c.args), c.func
+            if call_tail(c) == 'partial' and c.args:
+                callee, args = c.args[0], list(c.args[1:])
+            if not isinstance(callee, ast.Name):
+                continue
+            pos = [i for i, a in enumerate(args) if isinstance(a, ast.Name) and a.id == name]
+            kws = [k.arg for k in c.keywords if k.arg and isinstance(k.value, ast.Name) and k.value.id == name]
+            if not pos and not kws:
+                continue
+            try:
+                kind, m, g = repo.resolve(mod, callee.id)
+            except Exception:
+                continue
+            if m is not mod:
+                continue
+            if kind == 'func':
+                gps = g.params()
+                for pn in [gps[i] for i in pos if i < len(gps)] + [k for k in kws if k in gps]:
+                    u, pr = _list_updates(repo, mod, g, pn, False, depth + 1, seen)
+                    updated, problems = updated or u, problems + pr
+            elif kind == 'class':
+                init = repo.find_method(g, '__init__')
+                if init is None or init.mod is not mod:
+                    continue
+                ips = init.params()[1:]
+                for pn in [ips[i] for i in pos if i < len(ips)] + [k for k in kws if k in ips]:
+                    attrs = [s_.targets[0].attr for s_ in stmts_of(init.node)
+                             if isinstance(s_, ast.Assign) and len(s_.targets) == 1 and isinstance(s_.targets[0], ast.Attribute)
+                             and isinstance(s_.targets[0].value, ast.Name) and s_.targets[0].value.id == init.params()[0]
+                             and isinstance(s_.value, ast.Name) and s_.value.id == pn]
+                    for meth in g.methods.values():
+                        self_ = meth.params()[0] if meth.params() else None
+                        for s_ in stmts_of(meth.node):
+                            if meth is not init and isinstance(s_, ast.Assign):
+                                for t in s_.targets:
+                                    if isinstance(t, ast.Attribute) and isinstance(t.value, ast.Name) and t.value.id == self_ and t.attr in attrs:
+                                        problems.append((meth, s_, '%s rebinds the attribute %s.%s (%s): the caller\'s list, which is handed '
+                                                         'to the error hook, never sees the files the child reported'
+                                                         % (meth.qualname, self_, t.attr, short(s_, 60))))
+                        for e in effects.effects_in(meth.node):
+                            if e.chain and len(e.chain) >= 2 and e.chain[0] == self_ and e.chain[1] in attrs and \
+                                    all(x == '[]' for x in e.chain[2:]) and \
+                                    ((e.kind == 'store' and isinstance(e.target, ast.Subscript)) or (e.kind == 'mutcall' and e.method in _GROWS)):
+                                updated = True
+    return updated, problems
+
+
+def _launcher_handover(rep, fs):
+    """R20.e: the development server gives the failsafe the error text and the file list the child reported.  The
+    constructs are located by role; where they cannot be, the judgement is declined (a note), never guessed."""
+    repo = fs.repo
+    server = repo.mod('clastic.server')
+    rep.rule('R20.e', 'the launcher passes the error text and the monitored-file list it collected on to flaw.create_app')
+    cparams = fs.ca.params()
+    builders = [(fi, c) for q, fi in sorted(server.functions.items()) for c in walk_body(fi.node)
+                if isinstance(c, ast.Call) and call_tail(c) == 'create_app']
+    if len(cparams) < 2 or not builders:
+        rep.notes.append('R20.e declined: no call of flaw.create_app found in server.py')
+    for fi, c in builders:
+        a0, a1 = argn(c, cparams[0], 0), argn(c, cparams[1], 1)
+        ps = fi.params()
+        p0 = _param_behind(fi, a0) if a0 is not None else None
+        p1 = _param_behind(fi, a1) if a1 is not None else None
+        if a0 is not None and a1 is not None and (p0 is None or p1 is None):
+            rep.notes.append('R20.e declined: the arguments of %s are not parameters of %s' % (short(c, 60), fi.qualname))
+            continue
+        ok = p0 is not None and p1 is not None and p0 != p1 and ps.index(p0) < ps.index(p1)
+        rep.check('R20.e', fkey(fi, 'create_app arguments'), ok,
+                  'the failsafe is built from the error text and the file list this function was given' if ok else
+                  'create_app is not called with (error text, monitored files) as received: %s' % short(c, 80), server, c)
+    rwr = server.functions.get('restart_with_reloader')
+    if rwr is None or not rwr.params():
+        rep.notes.append('R20.e declined: restart_with_reloader(error_func) not found')
+        return
+
+    def hook_calls(fi, hook_params):
+        return [c for c in walk_body(fi.node) if isinstance(c, ast.Call) and isinstance(c.func, ast.Name) and c.func.id in hook_params
+                and len(c.args) == 2 and not c.keywords and not assigned_value(fi.node, c.func.id)]
+    owner, hooks = rwr, hook_calls(rwr, rwr.params())
+    X = None
+    if len(hooks) == 1:
+        X = _canon_name(rwr, hooks[0].args[1])
+    elif not hooks:
+        # one level down: restart_with_reloader hands its hook (and its list) to a function of the module
+        for c in walk_body(rwr.node):
+            g = _module_callee(repo, rwr, c)
+            if g is None:
+                continue
+            gps = g.params()
+            handed = [gps[i] for i, a in enumerate(c.args) if isinstance(a, ast.Name) and a.id in rwr.params() and i < len(gps)]
+            hs = hook_calls(g, handed)
+            if len(hs) == 1 and isinstance(hs[0].args[1], ast.Name) and hs[0].args[1].id in gps and \
+                    not assigned_value(g.node, hs[0].args[1].id) and gps.index(hs[0].args[1].id) < len(c.args):
+                back = c.args[gps.index(hs[0].args[1].id)]
+                owner, hooks, X = g, hs, _canon_name(rwr, back)
+                break
+    if len(hooks) != 1 or X is None or X in rwr.params():
+        rep.notes.append('R20.e declined: the call of the error hook (text, files) in restart_with_reloader was not found')
+        return
+    # the list is created once, outside the restart loop
+    made = [st for st, v, idx in assigned_value(rwr.node, X)]
+    in_loop = []
+    for st in made:
+        cur = st
+        while cur is not None and cur is not rwr.node:
+            cur = server.parents.get(cur)
+            if isinstance(cur, (ast.While, ast.For)):
+                in_loop.append(st)
+                break
+    updated, problems = _list_updates(repo, server, rwr, X, True)
+    for st in in_loop:
+        problems.append((rwr, st, 'the file list %s is re-created in every round of the restart loop (%s): what the previous child '
+                         'reported is lost when the next one dies' % (X, short(st, 50))))
+    for fi, st, why in problems:
+        rep.fail('R20.e', fkey(fi, st), why, server, st)
+    if not problems:
+        if not updated:
+            rep.notes.append('R20.e declined: no in-place update of the monitored-file list %s was found' % X)
+            return
+        rep.ok('R20.e', fkey(rwr, 'file list %s' % X), 'the list given to the error hook is the one filled in place from the child\'s report',
+               server, hooks[0])
+
+
+def run(rep):
+    repo = rep.repo
+    rep.decide('R20.a names resolve; R20.b parser cannot prevent the page, route/template/resource agreement; '
+               'R20.c template auto-escapes every reference; R20.d parsed branch reachable and fed; '
+               'R20.e the launcher hands over the collected text and file list')
+    rep.decline('totality over non-text inputs (bytes/None through ashes); coverage of traceback grammars')
+    rep.assume('ashes 19.2.0 filter semantics as read from the pinned source (apply_filters)')
+    fs = _Failsafe(repo)
+    repo.mod('clastic.server')
+
+    _group(rep, _names_resolve, rep, fs)
+    rep.rule('R20.b', 'parsing is under a catch-all handler; routes share endpoint and template; resources = endpoint params')
+    _group(rep, _parser_contained, rep, fs)
+    _group(rep, _routes_agree, rep, fs)
+    _group(rep, _static_nonbreaking, rep, fs)
+    _group(rep, _file_lists_kept, rep, fs)
+    _group(rep, _shown_is_given, rep, fs)
+    _group(rep, _template_escapes, rep, fs)
+    _group(rep, _parser_semantics, rep, fs)
+    _group(rep, _parsed_branch, rep, fs)
+    _group(rep, _launcher_handover, rep, fs)
